@@ -1,5 +1,15 @@
 """C11 - every export format is a faithful image of the query results (agreement clauses).
 
+The rules decide on computed images, not on statement shapes:
+  row stream   what CSVResultsExporter.export hands to its csv.writer, in order: ('one', row) / ('each', row(x), iterable) segments, followed through
+               writerow / writerows, loops, comprehensions, map(), list concatenation, chain() and (generator) helper methods
+  list image   the cells get_header / get_row return (comprehension or accumulator loop): element expression, loop target, iterable
+  dict image   key -> value of the dict a converter returns (dict() / literal / _todict-like helpers evaluated through their definition / spreads /
+               item stores / update / del / pop / `if` blocks -> conditional values); field tables may be class- or module-level constants
+  evaluation   getattr_nested is run by a small interpreter on a finite domain of attribute chains and compared with its specification
+  stores       the value of self._current_genomeset while the document is structured: a direct assignment or the entry part of a @contextmanager method
+A construct outside these vocabularies raises Undecided naming it; a computed image that differs from the required one is a violation.
+
 E1 CSV column paths resolve step by step against the result model (attrs classes, SQLAlchemy columns / relationships / hybrids)
 E2 header <-> path agreement (prefix = root, suffix = terminal attribute); header set == documented set (docs/source/cli.rst)
 E3 writing discipline: csv.writer, header once, one row per item from COLUMNS in order with pass_none; JSON via json.dump(default=to_json)
@@ -7,11 +17,11 @@ E4 JSON item image   E5 archive writer/reader registries agree; key fields writt
 E6 lossless scalar hooks (np.floating -> float, np.integer -> int; datetime / Path paired)
 """
 import ast
+import copy
 import os
 import re
 
-from ..astutil import (u, atoms, guard_map, path_atoms, stmts_in, calls_in, callee, callee_attr, reaching_def, def_value,
-                       PARAM, AMBIGUOUS, get_arg, get_kw, is_none, is_const, block_path)
+from ..astutil import u, atoms, names_in, guard_map, path_atoms, stmts_in, calls_in, callee_attr, def_value, get_arg, get_kw, is_none, is_const, block_path
 from ..report import Undecided
 
 R = 'gambit.results'
@@ -71,6 +81,1143 @@ def resolve_path(m, root_cls, path):
     return True, 'ok'
 
 
+# ====================================================================== symbolic images
+# The converter / exporter rules decide on the *image* of a function: what value flows to which key (dict images), which rows
+# are handed to the csv writer in which order (row streams), which cells make up a row (list images).  The images are computed
+# by a small symbolic evaluator over the canonicalised AST: locals are substituted by their definitions, literal tables (also
+# class-level / module-level constants) are unrolled, small package helpers are evaluated through their own definition, a
+# one-armed `if` that fills a pre-built dict becomes a conditional value.  A construct outside this vocabulary raises
+# Undecided naming the construct; a computed image that differs from the required one is a violation.
+
+FALLOFF = object()      # control falls off the end of the evaluated statements (no value returned)
+HOLE = '__x__'          # the element variable of an 'each' segment / list image
+_NEG2POS = {'isnot': 'is', 'ne': 'eq', 'notin': 'in', 'false': 'true'}
+
+
+class DictV:
+    """A dict under construction: ordered (constant key, value) pairs."""
+
+    def __init__(self, items=()):
+        self.items = [list(kv) for kv in items]
+
+    def set(self, k, v):
+        for kv in self.items:
+            if kv[0] == k:
+                kv[1] = v
+                return
+        self.items.append([k, v])
+
+    def delete(self, k):
+        n = len(self.items)
+        self.items = [kv for kv in self.items if kv[0] != k]
+        return len(self.items) != n
+
+    def keys(self):
+        return [k for k, _ in self.items]
+
+    def get(self, k, default=None):
+        for kk, v in self.items:
+            if kk == k:
+                return v
+        return default
+
+    def copy(self):
+        return DictV([(k, _copyv(v)) for k, v in self.items])
+
+
+class SeqV:
+    """A literal list / tuple."""
+
+    def __init__(self, elts):
+        self.elts = list(elts)
+
+
+class Minus:
+    """An opaque mapping with some constant keys removed (`del d['k']`, `d.pop('k')`)."""
+
+    def __init__(self, base, removed=()):
+        self.base = base
+        self.removed = tuple(removed)
+
+
+class Cond:
+    """A value that depends on a (positive-polarity) test."""
+
+    def __init__(self, test_atoms, a, b):
+        self.atoms = tuple(sorted(test_atoms))
+        self.a = a
+        self.b = b
+
+
+def _copyv(v):
+    return v.copy() if isinstance(v, DictV) else v
+
+
+def canon(v):
+    """Comparable normal form of a value."""
+    if v is FALLOFF:
+        return 'None'
+    if isinstance(v, ast.AST):
+        return u(v)
+    if isinstance(v, DictV):
+        return ('dict', tuple((k, canon(x)) for k, x in v.items))
+    if isinstance(v, SeqV):
+        return ('seq', tuple(canon(x) for x in v.elts))
+    if isinstance(v, Minus):
+        return ('minus', u(v.base), tuple(sorted(v.removed)))
+    if isinstance(v, Cond):
+        return ('if', v.atoms, canon(v.a), canon(v.b))
+    raise Undecided(f'symbolic value {v!r} has no normal form')
+
+
+def norm_test(t):
+    """(atoms of the positive-polarity form of test t, arms swapped?)"""
+    swap = False
+    a = atoms(t, True)
+    if a is None:
+        a2 = atoms(t, False)
+        if a2 is not None:
+            a, swap = a2, True
+        else:
+            a = {('true', u(t))}
+    if len(a) == 1:
+        (at,) = a
+        if at[0] in _NEG2POS:
+            a = {(_NEG2POS[at[0]],) + tuple(at[1:])}
+            swap = not swap
+    return a, swap
+
+
+def mkcond(t, a, b):
+    if a is FALLOFF and b is FALLOFF:
+        return FALLOFF
+    if canon(a) == canon(b):
+        return a
+    if isinstance(a, DictV) and isinstance(b, DictV) and a.keys() == b.keys():
+        return DictV([(k, mkcond(t, a.get(k), b.get(k))) for k in a.keys()])
+    at, swap = norm_test(t)
+    if swap:
+        a, b = b, a
+    return Cond(at, a, b)
+
+
+def _bound_names(node):
+    """Names bound by a comprehension / lambda node itself."""
+    out = set()
+    if isinstance(node, ast.Lambda):
+        a = node.args
+        out |= {x.arg for x in a.posonlyargs + a.args + a.kwonlyargs}
+        if a.vararg:
+            out.add(a.vararg.arg)
+        if a.kwarg:
+            out.add(a.kwarg.arg)
+    else:
+        for g in node.generators:
+            out |= {n.id for n in ast.walk(g.target) if isinstance(n, ast.Name)}
+    return out
+
+
+class _Subst(ast.NodeTransformer):
+    """Replace local names by their (expression) values; `getattr(o, 'name')` becomes `o.name`."""
+
+    def __init__(self, env, where):
+        self.env = env
+        self.where = where
+
+    def visit_Name(self, node):
+        if isinstance(node.ctx, ast.Load) and node.id in self.env:
+            v = self.env[node.id]
+            if not isinstance(v, ast.AST):
+                raise Undecided(f'{self.where}: local {node.id!r} holds a structured value and is used inside an expression the rule cannot evaluate')
+            return copy.deepcopy(v)
+        return node
+
+    def _scoped(self, node):
+        bound = _bound_names(node)
+        if bound & set(self.env):
+            saved = self.env
+            self.env = {k: v for k, v in saved.items() if k not in bound}
+            try:
+                return self.generic_visit(node)
+            finally:
+                self.env = saved
+        return self.generic_visit(node)
+
+    visit_ListComp = visit_SetComp = visit_DictComp = visit_GeneratorExp = visit_Lambda = _scoped
+
+    def visit_Call(self, node):
+        node = self.generic_visit(node)
+        if isinstance(node.func, ast.Name) and node.func.id == 'getattr' and len(node.args) == 2 and not node.keywords \
+                and isinstance(node.args[1], ast.Constant) and isinstance(node.args[1].value, str) and node.args[1].value.isidentifier():
+            return ast.Attribute(value=node.args[0], attr=node.args[1].value, ctx=ast.Load())
+        return node
+
+
+def subst(e, env, where=''):
+    return ast.fix_missing_locations(_Subst(dict(env), where).visit(copy.deepcopy(e)))
+
+
+def _stores_self_attr(ci, attr):
+    for f in ci.methods.values():
+        for n in ast.walk(f.node):
+            if isinstance(n, ast.Attribute) and isinstance(n.ctx, (ast.Store, ast.Del)) and n.attr == attr and isinstance(n.value, ast.Name) and n.value.id in ('self', 'cls'):
+                return True
+    return False
+
+
+def _literal_table(node):
+    """A literal list / tuple of constants (possibly nested) -> True."""
+    try:
+        v = ast.literal_eval(node)
+    except Exception:
+        return False
+    return isinstance(v, (list, tuple))
+
+
+class Sym:
+    """Symbolic evaluation of one function of the analysed package (straight-line code, `if`, loops over literal tables)."""
+
+    MAX_DEPTH = 3
+
+    def __init__(self, m, fi, depth=0, effects=None):
+        self.m = m
+        self.fi = fi
+        self.depth = depth
+        self.effects = effects      # list collecting ('call', Call) / ('store', target text, value) or None: side effects not allowed
+        self.where = fi.qualname.rsplit('.', 1)[-1]
+
+    # ------------------------------------------------------------ constants
+    def const_table(self, e):
+        """Class-level (`self.X`, `cls.X`, `Class.X`) or module-level constant holding a literal table -> its node."""
+        if isinstance(e, ast.Attribute) and isinstance(e.value, ast.Name):
+            cq = None
+            if e.value.id in ('self', 'cls') and self.fi.cls is not None:
+                cq = self.fi.cls.qualname
+            else:
+                r = self.m.resolve(self.fi.module, e.value)
+                if r in self.m.classes:
+                    cq = r
+            if cq is not None:
+                for cn in self.m.mro(cq):
+                    ci = self.m.classes.get(cn)
+                    if ci is not None and e.attr in ci.class_attrs:
+                        v = ci.class_attrs[e.attr]
+                        if _literal_table(v) and not _stores_self_attr(self.m.classes[cq], e.attr):
+                            return v
+                        return None
+        if isinstance(e, ast.Name) and e.id in self.fi.module.assigns and e.id not in self.fi.params():
+            v = self.fi.module.assigns[e.id]
+            if _literal_table(v):
+                return v
+        return None
+
+    # ------------------------------------------------------------ expressions
+    def sym(self, e, env):
+        return subst(e, {k: v for k, v in env.items()}, self.where)
+
+    def ev(self, e, env):
+        if isinstance(e, ast.Name):
+            if e.id in env:
+                return env[e.id]
+            t = self.const_table(e)
+            return self.ev(t, {}) if t is not None else e
+        if isinstance(e, ast.Constant):
+            return e
+        if isinstance(e, ast.Attribute):
+            t = self.const_table(e)
+            if t is not None:
+                return self.ev(t, {})
+            return self.sym(e, env)
+        if isinstance(e, (ast.List, ast.Tuple)) and not any(isinstance(x, ast.Starred) for x in e.elts):
+            return SeqV([self.ev(x, env) for x in e.elts])
+        if isinstance(e, ast.Dict):
+            d = DictV()
+            for k, v in zip(e.keys, e.values):
+                if k is None:
+                    self._spread(d, self.ev(v, env), e)
+                else:
+                    kk = self.ev(k, env)
+                    if not isinstance(kk, ast.Constant):
+                        raise Undecided(f'{self.where}: dict key {u(k)} is not a constant')
+                    d.set(kk.value, self.ev(v, env))
+            return d
+        if isinstance(e, ast.DictComp):
+            return self._dictcomp(e, env)
+        if isinstance(e, ast.IfExp):
+            return mkcond(self.sym(e.test, env), self.ev(e.body, env), self.ev(e.orelse, env))
+        if isinstance(e, ast.Call):
+            return self._call(e, env)
+        return self.sym(e, env)
+
+    def _spread(self, d, v, node):
+        if not isinstance(v, DictV):
+            raise Undecided(f'{self.where}: mapping spread into {u(node)[:60]} is not a dict the rule can evaluate')
+        for k, x in v.items:
+            d.set(k, x)
+
+    def _dictcomp(self, e, env):
+        if len(e.generators) != 1 or e.generators[0].ifs or e.generators[0].is_async:
+            raise Undecided(f'{self.where}: dict comprehension {u(e)[:60]} has a filter / several loops')
+        g = e.generators[0]
+        it = self.ev(g.iter, env)
+        if not isinstance(it, SeqV):
+            raise Undecided(f'{self.where}: dict comprehension {u(e)[:60]} iterates over something that is not a literal table')
+        d = DictV()
+        for x in it.elts:
+            env2 = dict(env)
+            self._bind(g.target, x, env2)
+            k = self.ev(e.key, env2)
+            if not isinstance(k, ast.Constant):
+                raise Undecided(f'{self.where}: dict comprehension key {u(e.key)} is not a constant')
+            d.set(k.value, self.ev(e.value, env2))
+        return d
+
+    def _bind(self, target, value, env):
+        if isinstance(target, ast.Name):
+            env[target.id] = value
+            return
+        if isinstance(target, (ast.Tuple, ast.List)) and isinstance(value, SeqV) and len(value.elts) == len(target.elts) \
+                and not any(isinstance(t, ast.Starred) for t in target.elts):
+            for t, x in zip(target.elts, value.elts):
+                self._bind(t, x, env)
+            return
+        raise Undecided(f'{self.where}: cannot bind target {u(target)}')
+
+    def _call(self, e, env):
+        f = e.func
+        fname = f.id if isinstance(f, ast.Name) else None
+        if fname == 'dict' and fname not in env:
+            d = DictV()
+            if len(e.args) > 1 or any(isinstance(a, ast.Starred) for a in e.args):
+                raise Undecided(f'{self.where}: dict() call {u(e)[:60]} not evaluable')
+            if e.args:
+                v = self.ev(e.args[0], env)
+                if isinstance(v, SeqV) and all(isinstance(p, SeqV) and len(p.elts) == 2 and isinstance(p.elts[0], ast.Constant) for p in v.elts):
+                    for p in v.elts:
+                        d.set(p.elts[0].value, p.elts[1])
+                else:
+                    self._spread(d, _copyv(v), e)
+            for k in e.keywords:
+                if k.arg is None:
+                    self._spread(d, _copyv(self.ev(k.value, env)), e)
+                else:
+                    d.set(k.arg, self.ev(k.value, env))
+            return d
+        if fname in ('list', 'tuple') and fname not in env and len(e.args) == 1 and not e.keywords:
+            v = self.ev(e.args[0], env)
+            if isinstance(v, SeqV):
+                return SeqV(v.elts)
+            return self.sym(e, env)
+        if fname == 'getattr' and fname not in env and len(e.args) == 2 and not e.keywords:
+            n = self.ev(e.args[1], env)
+            o = self.ev(e.args[0], env)
+            if isinstance(n, ast.Constant) and isinstance(n.value, str) and n.value.isidentifier() and isinstance(o, ast.AST):
+                return ast.Attribute(value=copy.deepcopy(o), attr=n.value, ctx=ast.Load())
+            return self.sym(e, env)
+        # a small helper of the package: evaluate it through its own definition
+        if self.depth < self.MAX_DEPTH and fname is not None and fname not in env:
+            r = self.m.resolve(self.fi.module, f)
+            tgt = self.m.functions.get(r)
+            if tgt is not None and tgt.cls is None and not tgt.decorators and tgt.module.kind == 'py' \
+                    and not any(isinstance(n, (ast.Yield, ast.YieldFrom)) for n in ast.walk(tgt.node)):
+                try:
+                    return self._inline(tgt, e, env)
+                except Undecided:
+                    pass
+        return self.sym(e, env)
+
+    def _inline(self, tgt, call, env):
+        a = tgt.node.args
+        if a.vararg or a.kwarg or a.posonlyargs or a.kwonlyargs or any(isinstance(x, ast.Starred) for x in call.args) or any(k.arg is None for k in call.keywords):
+            raise Undecided('helper signature')
+        params = [x.arg for x in a.args]
+        if len(call.args) > len(params):
+            raise Undecided('helper arity')
+        new = {}
+        for p, x in zip(params, call.args):
+            new[p] = self.ev(x, env)
+        for k in call.keywords:
+            if k.arg not in params or k.arg in new:
+                raise Undecided('helper keyword')
+            new[k.arg] = self.ev(k.value, env)
+        defaults = dict(zip(params[len(params) - len(a.defaults):], a.defaults))
+        for p in params:
+            if p not in new:
+                if p not in defaults:
+                    raise Undecided('helper missing argument')
+                new[p] = defaults[p]
+        sub = Sym(self.m, tgt, self.depth + 1, None)
+        r = sub.run(tgt.node.body, new)
+        if r is FALLOFF:
+            return ast.Constant(value=None)
+        return r
+
+    # ------------------------------------------------------------ statements
+    def effect(self, kind, *payload, stmt=None):
+        if self.effects is None:
+            raise Undecided(f'{self.where}: statement with a side effect the rule cannot evaluate: {u(stmt)[:80]}')
+        self.effects.append((kind,) + payload)
+
+    def run(self, stmts, env):
+        stmts = list(stmts)
+        for i, s in enumerate(stmts):
+            rest = stmts[i + 1:]
+            if isinstance(s, ast.Pass) or (isinstance(s, ast.Expr) and isinstance(s.value, ast.Constant)):
+                continue
+            if isinstance(s, (ast.Assign, ast.AnnAssign)):
+                if isinstance(s, ast.AnnAssign):
+                    if s.value is None:
+                        continue
+                    targets = [s.target]
+                else:
+                    targets = s.targets
+                v = self.ev(s.value, env)
+                for t in targets:
+                    self._store(t, v, env, s)
+                continue
+            if isinstance(s, ast.Delete):
+                for t in s.targets:
+                    self._remove(t, env, s)
+                continue
+            if isinstance(s, ast.If):
+                t = self.sym(s.test, env)
+                if self.effects is not None and any((isinstance(x, ast.Expr) and isinstance(x.value, ast.Call)) or (isinstance(x, ast.Assign) and any(isinstance(t, ast.Attribute) for t in x.targets))
+                                                    for x in stmts_in(s.body + s.orelse)):
+                    raise Undecided(f'{self.where}: conditional side effect under `if {u(s.test)[:50]}`')
+                r1 = self.run(s.body + rest, {k: _copyv(v) for k, v in env.items()})
+                r2 = self.run(s.orelse + rest, {k: _copyv(v) for k, v in env.items()})
+                return mkcond(t, r1, r2)
+            if isinstance(s, ast.For) and not s.orelse:
+                it = self.ev(s.iter, env)
+                if not isinstance(it, SeqV):
+                    raise Undecided(f'{self.where}: loop over {u(s.iter)[:50]} which is not a literal table')
+                if any(isinstance(x, (ast.Break, ast.Continue, ast.Return)) for x in stmts_in(s.body)):
+                    raise Undecided(f'{self.where}: loop over {u(s.iter)[:50]} with break / continue / return')
+                for x in it.elts:
+                    self._bind(s.target, x, env)
+                    self.run(s.body, env)
+                continue
+            if isinstance(s, ast.Return):
+                return ast.Constant(value=None) if s.value is None else self.ev(s.value, env)
+            if isinstance(s, ast.Expr) and isinstance(s.value, ast.Call):
+                self._call_stmt(s, env)
+                continue
+            raise Undecided(f'{self.where}: statement the rule cannot evaluate: {u(s)[:80]}')
+        return FALLOFF
+
+    def _store(self, t, v, env, stmt):
+        if isinstance(t, ast.Name):
+            env[t.id] = v
+        elif isinstance(t, (ast.Tuple, ast.List)):
+            self._bind(t, v, env)
+        elif isinstance(t, ast.Subscript) and isinstance(t.value, ast.Name) and isinstance(env.get(t.value.id), DictV):
+            k = self.ev(t.slice, env)
+            if not isinstance(k, ast.Constant):
+                raise Undecided(f'{self.where}: store under a key that is not constant: {u(stmt)[:80]}')
+            env[t.value.id].set(k.value, v)
+        elif isinstance(t, ast.Attribute):
+            self.effect('store', u(self.sym(t, env)), v, stmt=stmt)
+        else:
+            raise Undecided(f'{self.where}: store the rule cannot evaluate: {u(stmt)[:80]}')
+
+    def _remove(self, t, env, stmt, key=None):
+        if key is None:
+            if not (isinstance(t, ast.Subscript) and isinstance(t.value, ast.Name)):
+                raise Undecided(f'{self.where}: del the rule cannot evaluate: {u(stmt)[:80]}')
+            k = self.ev(t.slice, env)
+            name = t.value.id
+        else:
+            k, name = key, t
+        cur = env.get(name)
+        if not isinstance(k, ast.Constant) or cur is None:
+            raise Undecided(f'{self.where}: removal the rule cannot evaluate: {u(stmt)[:80]}')
+        if isinstance(cur, DictV):
+            cur.delete(k.value)
+        elif isinstance(cur, Minus):
+            env[name] = Minus(cur.base, cur.removed + (k.value,))
+        elif isinstance(cur, ast.AST):
+            env[name] = Minus(cur, (k.value,))
+        else:
+            raise Undecided(f'{self.where}: removal from a value that is not a mapping: {u(stmt)[:80]}')
+
+    def _call_stmt(self, s, env):
+        c = s.value
+        f = c.func
+        if isinstance(f, ast.Attribute) and isinstance(f.value, ast.Name) and f.value.id in env and not isinstance(env[f.value.id], SeqV):
+            name = f.value.id
+            cur = env[name]
+            if f.attr == 'pop' and 1 <= len(c.args) <= 2 and not c.keywords:
+                self._remove(name, env, s, key=self.ev(c.args[0], env))
+                return
+            if f.attr == 'update' and isinstance(cur, DictV) and len(c.args) <= 1:
+                if c.args:
+                    self._spread(cur, _copyv(self.ev(c.args[0], env)), c)
+                for k in c.keywords:
+                    if k.arg is None:
+                        self._spread(cur, _copyv(self.ev(k.value, env)), c)
+                    else:
+                        cur.set(k.arg, self.ev(k.value, env))
+                return
+            if isinstance(cur, (DictV, Minus)):
+                raise Undecided(f'{self.where}: mutation of the result the rule cannot evaluate: {u(s)[:80]}')
+        self.effect('call', self.sym(c, env), stmt=s)
+
+
+def image(m, fi, effects=None):
+    """Symbolic value returned by a function (parameters stay free names)."""
+    return Sym(m, fi, 0, effects).run(fi.node.body, {})
+
+
+def as_dict(v):
+    """canon DictV -> {key: canon value} or None."""
+    if isinstance(v, DictV):
+        return {k: canon(x) for k, x in v.items}
+    return None
+
+
+def dict_image(rep, m, fi, what):
+    v = image(m, fi)
+    rep.require(isinstance(v, DictV), f'{what}: the value returned by {fi.qualname} is not a dict the rule can evaluate key by key ({str(canon(v))[:80]})')
+    return v
+
+
+def attr_chain(text, root):
+    """'root.a.b' -> 'a.b'; None when the text is not a pure attribute chain on `root`."""
+    if isinstance(text, str) and text.startswith(root + '.') and re.fullmatch(r'[A-Za-z_]\w*(\.[A-Za-z_]\w*)*', text):
+        return text[len(root) + 1:]
+    return None
+
+
+# ====================================================================== list images (header / row)
+
+def list_image(fi):
+    """The list a function returns, as (element expr, loop target, iterable expr, filters, order-changing wrapper, analysed returns).
+    Recognised: a list comprehension / generator expression (optionally inside list() / tuple()), or an accumulator that is
+    created empty, appended to once per iteration of one loop and returned."""
+    where = fi.qualname.rsplit('.', 1)[-1]
+    body = [s for s in fi.node.body if not (isinstance(s, ast.Expr) and isinstance(s.value, ast.Constant))]
+    rets = [s for s in body if isinstance(s, ast.Return)]
+    if len(rets) != 1 or body[-1] is not rets[0] or rets[0].value is None:
+        raise Undecided(f'{where}: no single final return statement')
+    ret = rets[0]
+    env = {}
+    loop = None
+    for s in body[:-1]:
+        if isinstance(s, ast.Assign) and len(s.targets) == 1 and isinstance(s.targets[0], ast.Name):
+            env[s.targets[0].id] = subst(s.value, env, where)
+        elif isinstance(s, ast.AnnAssign) and isinstance(s.target, ast.Name) and s.value is not None:
+            env[s.target.id] = subst(s.value, env, where)
+        elif isinstance(s, ast.For) and loop is None and not s.orelse:
+            loop = s
+        elif isinstance(s, ast.If) and all(isinstance(x, (ast.Return, ast.Raise)) for x in s.body + s.orelse):
+            continue    # shortcut returns are reported by account_returns
+        else:
+            raise Undecided(f'{where}: statement the rule cannot evaluate: {u(s)[:80]}')
+    e = subst(ret.value, env, where) if loop is None else ret.value
+    wrapper = None
+    while loop is None and isinstance(e, ast.Call) and isinstance(e.func, ast.Name) and len(e.args) == 1 and not e.keywords and e.func.id in ('list', 'tuple', 'sorted', 'reversed', 'set', 'frozenset'):
+        if e.func.id not in ('list', 'tuple'):
+            wrapper = e.func.id
+        e = e.args[0]
+    if loop is None:
+        if isinstance(e, (ast.ListComp, ast.GeneratorExp)) and len(e.generators) == 1 and not e.generators[0].is_async:
+            g = e.generators[0]
+            return dict(elt=e.elt, target=g.target, iter=g.iter, ifs=list(g.ifs), wrapper=wrapper, returns=[ret])
+        raise Undecided(f'{where}: returned value {u(e)[:80]} is not a comprehension / accumulated list the rule can evaluate')
+    # accumulator loop
+    if not isinstance(ret.value, ast.Name):
+        raise Undecided(f'{where}: a loop precedes the return but the returned value {u(ret.value)[:60]} is not its accumulator')
+    acc = ret.value.id
+    init = env.get(acc)
+    if not ((isinstance(init, ast.List) and not init.elts) or (isinstance(init, ast.Call) and u(init) == 'list()')):
+        raise Undecided(f'{where}: accumulator {acc!r} does not start as an empty list')
+    lenv = {k: v for k, v in env.items() if k != acc}
+    elt = None
+    for s in loop.body:
+        if isinstance(s, ast.Assign) and len(s.targets) == 1 and isinstance(s.targets[0], ast.Name) and s.targets[0].id != acc:
+            lenv[s.targets[0].id] = subst(s.value, lenv, where)
+        elif isinstance(s, ast.Expr) and isinstance(s.value, ast.Call) and isinstance(s.value.func, ast.Attribute) and u(s.value.func.value) == acc \
+                and s.value.func.attr == 'append' and len(s.value.args) == 1 and elt is None:
+            elt = subst(s.value.args[0], lenv, where)
+        else:
+            raise Undecided(f'{where}: loop statement the rule cannot evaluate: {u(s)[:80]}')
+    if elt is None:
+        raise Undecided(f'{where}: the loop never appends to {acc!r}')
+    return dict(elt=elt, target=loop.target, iter=subst(loop.iter, lenv, where), ifs=[], wrapper=None, returns=[ret])
+
+
+def component(img, k):
+    """Texts that denote component k of the loop element."""
+    t = img['target']
+    out = set()
+    if isinstance(t, (ast.Tuple, ast.List)) and k < len(t.elts) and isinstance(t.elts[k], ast.Name):
+        out.add(t.elts[k].id)
+    if isinstance(t, ast.Name):
+        out.add(f'{t.id}[{k}]')
+    return out
+
+
+# ====================================================================== row streams (what reaches the csv writer, in order)
+
+def _is_generator(fi):
+    return any(isinstance(n, (ast.Yield, ast.YieldFrom)) for n in ast.walk(fi.node))
+
+
+class Rows:
+    """Sequence of rows handed to a writer: ('one', row text) | ('each', row text over HOLE, iterable text)."""
+
+    def __init__(self, m):
+        self.m = m
+        self.visited = set()    # helper functions / generator methods the rows were followed through
+
+    def each(self, elt, target, it, env, where, outer=None):
+        if not isinstance(target, ast.Name):
+            raise Undecided(f'{where}: rows produced from a loop with a structured target {u(target)}')
+        # locals of the loop body are replaced by their definitions first, then the loop element by the hole
+        body_env = {k: v for k, v in env.items() if k != target.id}
+        outer = env if outer is None else outer
+        if any(target.id in names_in(v) for k, v in outer.items() if k != target.id and isinstance(v, ast.AST)):
+            raise Undecided(f'{where}: a local defined before the loop mentions the loop variable {target.id!r}')
+        e1 = subst(elt, body_env, where)
+        return [('each', u(subst(e1, {target.id: ast.Name(id=HOLE, ctx=ast.Load())}, where)), u(subst(it, outer, where)))]
+
+    def stream(self, fi, e, env, depth=0):
+        where = fi.qualname.rsplit('.', 1)[-1]
+        if isinstance(e, ast.Name) and e.id in env:
+            return self.stream(fi, env[e.id], {}, depth)
+        if isinstance(e, (ast.List, ast.Tuple)) and not any(isinstance(x, ast.Starred) for x in e.elts):
+            return [('one', u(subst(x, env, where))) for x in e.elts]
+        if isinstance(e, ast.BinOp) and isinstance(e.op, ast.Add):
+            return self.stream(fi, e.left, env, depth) + self.stream(fi, e.right, env, depth)
+        if isinstance(e, (ast.ListComp, ast.GeneratorExp)):
+            if len(e.generators) != 1 or e.generators[0].is_async:
+                raise Undecided(f'{where}: rows come from a comprehension with several loops: {u(e)[:80]}')
+            g = e.generators[0]
+            seg = self.each(e.elt, g.target, g.iter, env, where)
+            if g.ifs:       # a filter drops rows: a located deviation
+                return [('each-filtered',) + seg[0][1:] + (tuple(u(x) for x in g.ifs),)]
+            return seg
+        if isinstance(e, ast.Call):
+            fn = u(e.func)
+            if fn in ('list', 'tuple', 'iter') and len(e.args) == 1 and not e.keywords:
+                return self.stream(fi, e.args[0], env, depth)
+            if fn in ('chain', 'itertools.chain') and not e.keywords and not any(isinstance(a, ast.Starred) for a in e.args):
+                out = []
+                for a in e.args:
+                    out += self.stream(fi, a, env, depth)
+                return out
+            if fn == 'map' and len(e.args) == 2 and not e.keywords:
+                f = subst(e.args[0], env, where)
+                if isinstance(f, ast.Lambda):
+                    raise Undecided(f'{where}: rows mapped through a lambda: {u(e)[:80]}')
+                return [('each', f'{u(f)}({HOLE})', u(subst(e.args[1], env, where)))]
+            r = self.m.resolve_call(fi, e)
+            tgt = self.m.functions.get(r)
+            if tgt is not None and depth < 3 and tgt.module.kind == 'py' and not [d for d in tgt.decorators if u(d) not in ('staticmethod', 'classmethod')]:
+                new = bind_call(tgt, e, env, where)
+                self.visited.add(tgt.qualname)
+                if _is_generator(tgt):
+                    return self.gen(tgt, tgt.node.body, new, depth + 1)
+                body = [s for s in tgt.node.body if not (isinstance(s, ast.Expr) and isinstance(s.value, ast.Constant))]
+                if len(body) == 1 and isinstance(body[0], ast.Return) and body[0].value is not None:
+                    return self.stream(tgt, body[0].value, new, depth + 1)
+        raise Undecided(f'{where}: the rows handed to the csv writer ({u(e)[:80]}) are not an iterable the rule can evaluate')
+
+    def gen(self, fi, stmts, env, depth):
+        where = fi.qualname.rsplit('.', 1)[-1]
+        out = []
+        env = dict(env)
+        for s in stmts:
+            if isinstance(s, ast.Pass) or (isinstance(s, ast.Expr) and isinstance(s.value, ast.Constant)):
+                continue
+            if isinstance(s, ast.Expr) and isinstance(s.value, ast.Yield) and s.value.value is not None:
+                out.append(('one', u(subst(s.value.value, env, where))))
+            elif isinstance(s, ast.Expr) and isinstance(s.value, ast.YieldFrom):
+                out += self.stream(fi, s.value.value, env, depth)
+            elif isinstance(s, ast.Assign) and len(s.targets) == 1 and isinstance(s.targets[0], ast.Name) \
+                    and not any(isinstance(n, (ast.Yield, ast.YieldFrom)) for n in ast.walk(s.value)):
+                env[s.targets[0].id] = subst(s.value, env, where)
+            elif isinstance(s, ast.For) and not s.orelse:
+                lenv = dict(env)
+                elt = None
+                cond = None
+                for b in s.body:
+                    if isinstance(b, ast.Assign) and len(b.targets) == 1 and isinstance(b.targets[0], ast.Name) and not any(isinstance(n, (ast.Yield, ast.YieldFrom)) for n in ast.walk(b.value)):
+                        lenv[b.targets[0].id] = subst(b.value, {k: v for k, v in lenv.items() if not (isinstance(s.target, ast.Name) and k == s.target.id)}, where)
+                    elif isinstance(b, ast.Expr) and isinstance(b.value, ast.Yield) and b.value.value is not None and elt is None and cond is None:
+                        elt = b.value.value
+                    elif isinstance(b, ast.If) and elt is None and any(isinstance(n, (ast.Yield, ast.YieldFrom)) for n in ast.walk(b)):
+                        cond = ('each-conditional', f'if {u(b.test)[:60]}', u(subst(s.iter, env, where)))     # rows only for some elements: a located deviation
+                    else:
+                        raise Undecided(f'{where}: generator loop statement the rule cannot evaluate: {u(b)[:80]}')
+                if cond is not None:
+                    out.append(cond)
+                    continue
+                if elt is None:
+                    raise Undecided(f'{where}: generator loop over {u(s.iter)[:50]} yields nothing')
+                out += self.each(elt, s.target, s.iter, lenv, where, outer=env)
+            else:
+                raise Undecided(f'{where}: generator statement the rule cannot evaluate: {u(s)[:80]}')
+        return out
+
+
+def bind_call(tgt, call, env, where, keep_identity=False):
+    """{parameter: argument expression (caller's locals substituted)} for a call of a package function / method."""
+    a = tgt.node.args
+    if a.vararg or a.kwarg or a.posonlyargs or any(isinstance(x, ast.Starred) for x in call.args) or any(k.arg is None for k in call.keywords):
+        raise Undecided(f'{where}: call {u(call)[:60]} uses star arguments')
+    params = [x.arg for x in a.args] + [x.arg for x in a.kwonlyargs]
+    pos = [x.arg for x in a.args]
+    new = {}
+    if tgt.cls is not None and pos and pos[0] in ('self', 'cls') and not any(u(d) == 'staticmethod' for d in tgt.decorators):
+        recv = call.func.value if isinstance(call.func, ast.Attribute) else None
+        if recv is None:
+            raise Undecided(f'{where}: method call {u(call)[:60]} without receiver')
+        if not (isinstance(recv, ast.Name) and recv.id == pos[0]):
+            new[pos[0]] = subst(recv, env, where)
+        pos = pos[1:]
+    if len(call.args) > len(pos):
+        raise Undecided(f'{where}: call {u(call)[:60]} has too many arguments')
+    for p, x in zip(pos, call.args):
+        new[p] = subst(x, env, where)
+    for k in call.keywords:
+        if k.arg not in params or k.arg in new:
+            raise Undecided(f'{where}: call {u(call)[:60]}: unexpected keyword {k.arg}')
+        new[k.arg] = subst(k.value, env, where)
+    defaults = dict(zip([x.arg for x in a.args][len(a.args) - len(a.defaults):], a.defaults))
+    defaults.update({x.arg: d for x, d in zip(a.kwonlyargs, a.kw_defaults) if d is not None})
+    for p in pos + [x.arg for x in a.kwonlyargs]:
+        if p not in new:
+            if p not in defaults:
+                raise Undecided(f'{where}: call {u(call)[:60]}: missing argument {p}')
+            new[p] = defaults[p]
+    # identity bindings (argument is the same name as the parameter) need no substitution
+    return {p: v for p, v in new.items() if keep_identity or not (isinstance(v, ast.Name) and v.id == p)}
+
+
+def csv_trace(m, fi):
+    """What CSVResultsExporter.export writes: csv.writer objects, the row stream handed to them, writes that bypass them."""
+    where = fi.qualname.rsplit('.', 1)[-1]
+    rows = Rows(m)
+    st = dict(files=set(), writers={}, bound={}, ctor=[], stream=[], raw=[], handled=0)
+
+    def is_ctor(e):
+        return isinstance(e, ast.Call) and u(e.func) == 'csv.writer'
+
+    def writer_of(recv, env):
+        """the csv.writer construction a receiver expression denotes, or None"""
+        if isinstance(recv, ast.Name) and recv.id in st['writers']:
+            return st['writers'][recv.id]
+        if is_ctor(recv):
+            st['ctor'].append(recv)
+            return recv
+        return None
+
+    def mentions(node):
+        names = {n.id for n in ast.walk(node) if isinstance(n, ast.Name)}
+        return bool(names & (st['files'] | set(st['writers']) | set(st['bound'])))
+
+    def other_use(node):
+        """A statement that touches the output file / the writer without being a recognised row write: text written to the file
+        directly bypasses the csv writer (recorded, a violation); anything else (the file or the writer handed to a callee, an
+        unknown writer method) is outside what the rule can evaluate."""
+        if not mentions(node):
+            return
+        direct = [c for c in calls_in(node) if (isinstance(c.func, ast.Attribute) and isinstance(c.func.value, ast.Name) and c.func.value.id in st['files'])
+                  or (u(c.func) == 'print' and isinstance(get_kw(c, 'file'), ast.Name) and get_kw(c, 'file').id in st['files'])]
+        others = {n.id for n in ast.walk(node) if isinstance(n, ast.Name)} & (set(st['writers']) | set(st['bound']))
+        if direct and not others:
+            st['raw'].append(u(node)[:80])
+            return
+        raise Undecided(f'{where}: the output file / csv writer is used in a way the rule cannot evaluate: {u(node)[:80]}')
+
+    def write_calls(node):
+        return [c for c in calls_in(node) if callee_attr(c) in ('writerow', 'writerows')]
+
+    def emit(c, env):
+        """a `<writer>.writerow(E)` / `.writerows(E)` call -> segments, or None when c is not such a call"""
+        if isinstance(c.func, ast.Name) and c.func.id in st['bound']:
+            method = st['bound'][c.func.id]
+        elif isinstance(c.func, ast.Attribute) and c.func.attr in ('writerow', 'writerows') and writer_of(c.func.value, env) is not None:
+            method = c.func.attr
+            st['handled'] += 1
+        else:
+            return None
+        if len(c.args) != 1 or c.keywords or isinstance(c.args[0], ast.Starred):
+            raise Undecided(f'{where}: {u(c)[:60]}: unexpected arguments')
+        if method == 'writerow':
+            return [('one', u(subst(c.args[0], env, where)))]
+        return rows.stream(fi, c.args[0], env)
+
+    def walk(stmts, env):
+        for s in stmts:
+            if isinstance(s, ast.With):
+                for i in s.items:
+                    if i.optional_vars is not None and isinstance(i.optional_vars, ast.Name):
+                        st['files'].add(i.optional_vars.id)
+                walk(s.body, env)
+            elif isinstance(s, ast.Assign) and len(s.targets) == 1 and isinstance(s.targets[0], ast.Name):
+                if is_ctor(s.value):
+                    st['writers'][s.targets[0].id] = s.value
+                    st['ctor'].append(s.value)
+                elif isinstance(s.value, ast.Attribute) and s.value.attr in ('writerow', 'writerows') and writer_of(s.value.value, env) is not None:
+                    st['bound'][s.targets[0].id] = s.value.attr      # bound method of the writer kept in a local
+                else:
+                    if write_calls(s.value) or mentions(s.value):
+                        raise Undecided(f'{where}: the output file / csv writer flows into a local the rule cannot follow: {u(s)[:80]}')
+                    env[s.targets[0].id] = subst(s.value, env, where)
+            elif isinstance(s, ast.Expr) and isinstance(s.value, ast.Call):
+                seg = emit(s.value, env)
+                if seg is not None:
+                    st['stream'] += seg
+                elif write_calls(s.value):
+                    raise Undecided(f'{where}: a row is written through {u(s.value.func)[:60]}, which is not a csv.writer the rule can see')
+                else:
+                    other_use(s)
+            elif isinstance(s, ast.For) and not s.orelse:
+                wc = write_calls(s) + [c for c in calls_in(s) if isinstance(c.func, ast.Name) and c.func.id in st['bound']]
+                if not wc:
+                    other_use(s)
+                    continue
+                lenv = dict(env)
+                seg = None
+                cond = None
+                for b in s.body:
+                    if isinstance(b, ast.Assign) and len(b.targets) == 1 and isinstance(b.targets[0], ast.Name) and not write_calls(b.value):
+                        lenv[b.targets[0].id] = subst(b.value, {k: v for k, v in lenv.items() if not (isinstance(s.target, ast.Name) and k == s.target.id)}, where)
+                    elif isinstance(b, ast.Expr) and isinstance(b.value, ast.Call) and seg is None and cond is None and len(b.value.args) == 1 and not b.value.keywords and not isinstance(b.value.args[0], ast.Starred) \
+                            and ((isinstance(b.value.func, ast.Attribute) and b.value.func.attr == 'writerow' and writer_of(b.value.func.value, lenv) is not None)
+                                 or (isinstance(b.value.func, ast.Name) and st['bound'].get(b.value.func.id) == 'writerow')):
+                        if isinstance(b.value.func, ast.Attribute):
+                            st['handled'] += 1
+                        seg = b.value.args[0]
+                    elif not write_calls(b) and not any(isinstance(c.func, ast.Name) and c.func.id in st['bound'] for c in calls_in(b)):
+                        other_use(b)        # a statement that writes no row: irrelevant unless it touches the file / writer
+                    elif isinstance(b, ast.If) and seg is None and write_calls(b) and all(writer_of(c.func.value, lenv) is not None for c in write_calls(b) if isinstance(c.func, ast.Attribute)):
+                        # rows written only for some items: a located deviation
+                        st['handled'] += len(write_calls(b))
+                        cond = ('each-conditional', f'if {u(b.test)[:60]}', u(subst(s.iter, env, where)))
+                    else:
+                        raise Undecided(f'{where}: the loop over {u(s.iter)[:40]} writes rows in a form the rule cannot evaluate: {u(b)[:80]}')
+                if cond is not None:
+                    st['stream'].append(cond)
+                    continue
+                if seg is None:
+                    raise Undecided(f'{where}: the loop over {u(s.iter)[:40]} writes rows in a form the rule cannot evaluate')
+                st['stream'] += rows.each(seg, s.target, s.iter, lenv, where, outer=env)
+            elif isinstance(s, ast.If) and write_calls(s):
+                saved = st['stream']
+                st['stream'] = []
+                walk(s.body, dict(env))
+                walk(s.orelse, dict(env))
+                st['stream'] = saved + [(f'under `if {u(s.test)[:40]}`',) + seg for seg in st['stream']]
+            elif isinstance(s, (ast.Pass, ast.Return)) or (isinstance(s, ast.Expr) and isinstance(s.value, ast.Constant)):
+                if write_calls(s):
+                    raise Undecided(f'{where}: a row is written inside {u(s)[:80]}')
+            else:
+                if write_calls(s) or mentions(s):
+                    raise Undecided(f'{where}: rows are written under a statement the rule cannot evaluate: {u(s)[:80]}')
+    walk(fi.node.body, {})
+    st['calls'] = len(write_calls(fi.node))
+    st['visited'] = rows.visited
+    return st
+
+
+# ====================================================================== concrete evaluation of getattr_nested on a finite domain
+
+class _Ret(Exception):
+    def __init__(self, v):
+        self.v = v
+
+
+class _Brk(Exception):
+    pass
+
+
+class _Cont(Exception):
+    pass
+
+
+class _Raise(Exception):
+    def __init__(self, kind):
+        self.kind = kind
+
+
+class PObj:
+    """An opaque object reached from the root by a path of attribute names (possibly one whose truth value is False: 0, '', 0.0)."""
+
+    def __init__(self, path, falsy=False):
+        self.path = tuple(path)
+        self.falsy = falsy
+
+    def __eq__(self, o):
+        return isinstance(o, PObj) and o.path == self.path
+
+    def __hash__(self):
+        return hash(self.path)
+
+    def __repr__(self):
+        return 'root' + ''.join('.' + p for p in self.path) + (' (falsy)' if self.falsy else '')
+
+
+class Conc:
+    """Interpreter for the small imperative subset getattr_nested is written in, over a world in which the attribute chain
+    is opaque objects except for one position that holds None.  Every getattr call is traced."""
+
+    TYPES = {'str': str, 'list': list, 'tuple': tuple, 'dict': dict, 'int': int, 'bool': bool}
+    MAX_STEPS = 200
+
+    def __init__(self, none_path, where, falsy_path=None):
+        self.none_path = none_path
+        self.falsy_path = falsy_path
+        self.trace = []
+        self.where = where
+        self.steps = 0
+
+    def getattr(self, o, name, *default):
+        self.trace.append((repr(o), name))
+        if not isinstance(name, str):
+            raise _Raise('TypeError')
+        if isinstance(o, PObj):
+            p = o.path + (name,)
+            return None if p == self.none_path else PObj(p, p == self.falsy_path)
+        if o is None:
+            if default:
+                return default[0]
+            raise _Raise('AttributeError')
+        raise Undecided(f'{self.where}: getattr on a value that is not an object of the chain ({o!r})')
+
+    def truth(self, v):
+        if isinstance(v, PObj):
+            return not v.falsy
+        if v is None or isinstance(v, (bool, int, str, list, tuple, dict)):
+            return bool(v)
+        raise Undecided(f'{self.where}: truth value of {v!r}')
+
+    def ev(self, e, env):
+        if isinstance(e, ast.Constant):
+            return e.value
+        if isinstance(e, ast.Name):
+            if e.id in env:
+                return env[e.id]
+            if e.id in self.TYPES:
+                return self.TYPES[e.id]
+            raise Undecided(f'{self.where}: name {e.id!r} is not a local the rule can evaluate')
+        if isinstance(e, ast.UnaryOp) and isinstance(e.op, ast.Not):
+            return not self.truth(self.ev(e.operand, env))
+        if isinstance(e, ast.UnaryOp) and isinstance(e.op, ast.USub):
+            v = self.ev(e.operand, env)
+            if isinstance(v, int) and not isinstance(v, bool):
+                return -v
+            raise Undecided(f'{self.where}: arithmetic {u(e)[:60]}')
+        if isinstance(e, ast.BoolOp):
+            v = None
+            for x in e.values:
+                v = self.ev(x, env)
+                if isinstance(e.op, ast.And) and not self.truth(v):
+                    return v
+                if isinstance(e.op, ast.Or) and self.truth(v):
+                    return v
+            return v
+        if isinstance(e, ast.IfExp):
+            return self.ev(e.body, env) if self.truth(self.ev(e.test, env)) else self.ev(e.orelse, env)
+        if isinstance(e, ast.Compare):
+            left = self.ev(e.left, env)
+            for op, r in zip(e.ops, e.comparators):
+                right = self.ev(r, env)
+                t = type(op).__name__
+                if t == 'Is':
+                    ok = left is right or (isinstance(left, PObj) and left == right)
+                elif t == 'IsNot':
+                    ok = not (left is right or (isinstance(left, PObj) and left == right))
+                elif t == 'Eq':
+                    ok = left == right
+                elif t == 'NotEq':
+                    ok = left != right
+                elif t in ('In', 'NotIn') and isinstance(right, (list, tuple, str)):
+                    ok = (left in right) == (t == 'In')
+                elif t in ('Lt', 'LtE', 'Gt', 'GtE') and isinstance(left, int) and isinstance(right, int):
+                    ok = {'Lt': left < right, 'LtE': left <= right, 'Gt': left > right, 'GtE': left >= right}[t]
+                else:
+                    raise Undecided(f'{self.where}: comparison {u(e)[:60]}')
+                if not ok:
+                    return False
+                left = right
+            return True
+        if isinstance(e, (ast.List, ast.Tuple)) and not any(isinstance(x, ast.Starred) for x in e.elts):
+            v = [self.ev(x, env) for x in e.elts]
+            return v if isinstance(e, ast.List) else tuple(v)
+        if isinstance(e, ast.Subscript) and not isinstance(e.slice, ast.Slice):
+            b, i = self.ev(e.value, env), self.ev(e.slice, env)
+            if isinstance(b, (list, tuple, str)) and isinstance(i, int) and not isinstance(i, bool):
+                try:
+                    return b[i]
+                except IndexError:
+                    raise _Raise('IndexError')
+            raise Undecided(f'{self.where}: subscript {u(e)[:60]}')
+        if isinstance(e, ast.Subscript):
+            b = self.ev(e.value, env)
+            lo = None if e.slice.lower is None else self.ev(e.slice.lower, env)
+            hi = None if e.slice.upper is None else self.ev(e.slice.upper, env)
+            step = None if e.slice.step is None else self.ev(e.slice.step, env)
+            if isinstance(b, (list, tuple, str)) and step != 0 and all(x is None or (isinstance(x, int) and not isinstance(x, bool)) for x in (lo, hi, step)):
+                return b[lo:hi:step]
+            raise Undecided(f'{self.where}: slice {u(e)[:60]}')
+        if isinstance(e, ast.BinOp) and isinstance(e.op, (ast.Add, ast.Sub)):
+            l, r = self.ev(e.left, env), self.ev(e.right, env)
+            if isinstance(l, int) and isinstance(r, int):
+                return l + r if isinstance(e.op, ast.Add) else l - r
+            raise Undecided(f'{self.where}: arithmetic {u(e)[:60]}')
+        if isinstance(e, ast.Call):
+            return self.call(e, env)
+        raise Undecided(f'{self.where}: expression the rule cannot evaluate: {u(e)[:60]}')
+
+    def call(self, e, env):
+        if e.keywords or any(isinstance(a, ast.Starred) for a in e.args):
+            raise Undecided(f'{self.where}: call {u(e)[:60]}')
+        f = e.func
+        if isinstance(f, ast.Name) and f.id not in env:
+            args = [self.ev(a, env) for a in e.args]
+            if f.id == 'getattr' and len(args) in (2, 3):
+                return self.getattr(*args)
+            if f.id == 'isinstance' and len(args) == 2:
+                ts = args[1] if isinstance(args[1], tuple) else (args[1],)
+                if all(isinstance(t, type) for t in ts):
+                    return (not isinstance(args[0], PObj)) and isinstance(args[0], tuple(ts))
+            if f.id == 'len' and len(args) == 1 and isinstance(args[0], (list, tuple, str)):
+                return len(args[0])
+            if f.id in ('list', 'tuple') and len(args) == 1 and isinstance(args[0], (list, tuple)):
+                return list(args[0]) if f.id == 'list' else tuple(args[0])
+            if f.id == 'bool' and len(args) == 1:
+                return self.truth(args[0])
+            if f.id == 'range' and 1 <= len(args) <= 2 and all(isinstance(a, int) for a in args):
+                return list(range(*args))
+        if isinstance(f, ast.Attribute) and f.attr == 'split':
+            b = self.ev(f.value, env)
+            args = [self.ev(a, env) for a in e.args]
+            if isinstance(b, str) and len(args) == 1 and isinstance(args[0], str) and args[0]:
+                return b.split(args[0])
+        raise Undecided(f'{self.where}: call the rule cannot evaluate: {u(e)[:60]}')
+
+    def run(self, stmts, env):
+        for s in stmts:
+            self.steps += 1
+            if self.steps > self.MAX_STEPS:
+                raise Undecided(f'{self.where}: evaluation does not terminate within {self.MAX_STEPS} steps')
+            if isinstance(s, ast.Pass) or (isinstance(s, ast.Expr) and isinstance(s.value, ast.Constant)):
+                continue
+            if isinstance(s, ast.Assign) and all(isinstance(t, ast.Name) for t in s.targets):
+                v = self.ev(s.value, env)
+                for t in s.targets:
+                    env[t.id] = v
+            elif isinstance(s, ast.AnnAssign) and isinstance(s.target, ast.Name):
+                if s.value is not None:
+                    env[s.target.id] = self.ev(s.value, env)
+            elif isinstance(s, ast.AugAssign) and isinstance(s.target, ast.Name) and isinstance(s.op, (ast.Add, ast.Sub)):
+                l, r = self.ev(s.target, env), self.ev(s.value, env)
+                if not (isinstance(l, int) and isinstance(r, int)):
+                    raise Undecided(f'{self.where}: {u(s)[:60]}')
+                env[s.target.id] = l + r if isinstance(s.op, ast.Add) else l - r
+            elif isinstance(s, ast.If):
+                self.run(s.body if self.truth(self.ev(s.test, env)) else s.orelse, env)
+            elif isinstance(s, ast.For) and isinstance(s.target, ast.Name):
+                it = self.ev(s.iter, env)
+                if not isinstance(it, (list, tuple)):
+                    raise Undecided(f'{self.where}: loop over {u(s.iter)[:40]} (value {it!r})')
+                broke = False
+                for x in list(it):
+                    env[s.target.id] = x
+                    try:
+                        self.run(s.body, env)
+                    except _Brk:
+                        broke = True
+                        break
+                    except _Cont:
+                        continue
+                if not broke:
+                    self.run(s.orelse, env)
+            elif isinstance(s, ast.While):
+                broke = False
+                while self.truth(self.ev(s.test, env)):
+                    self.steps += 1
+                    if self.steps > self.MAX_STEPS:
+                        raise Undecided(f'{self.where}: evaluation does not terminate within {self.MAX_STEPS} steps')
+                    try:
+                        self.run(s.body, env)
+                    except _Brk:
+                        broke = True
+                        break
+                    except _Cont:
+                        continue
+                if not broke:
+                    self.run(s.orelse, env)
+            elif isinstance(s, ast.Return):
+                raise _Ret(None if s.value is None else self.ev(s.value, env))
+            elif isinstance(s, ast.Break):
+                raise _Brk()
+            elif isinstance(s, ast.Continue):
+                raise _Cont()
+            elif isinstance(s, ast.Expr) and isinstance(s.value, ast.Call):
+                self.ev(s.value, env)
+            else:
+                raise Undecided(f'{self.where}: statement the rule cannot evaluate: {u(s)[:80]}')
+
+
+def nested_spec(names, special_depth, kind, pass_none):
+    """Required outcome and getattr trace of following `names` from the root when the value at depth special_depth is None
+    (kind 'none') or a present value whose truth value is False (kind 'falsy')."""
+    def at(depth, path):
+        if depth == special_depth:
+            return None if kind == 'none' else PObj(path, True)
+        return PObj(path)
+    trace = []
+    cur = at(0, ())
+    for i, n in enumerate(names):
+        if pass_none and cur is None:
+            return ('return', None), trace
+        trace.append((repr(cur), n))
+        if cur is None:
+            return ('raise', 'AttributeError'), trace
+        cur = at(i + 1, cur.path + (n,))
+    return ('return', cur), trace
+
+
+def check_getattr_nested(fg):
+    """Exhaustive evaluation on chains of up to 3 attributes x position of a None / of a falsy present value x pass_none x spelling of the path.
+    -> (number of worlds, first disagreement or None)"""
+    params = fg.params()
+    if len(params) != 3 or fg.node.args.vararg or fg.node.args.kwarg:
+        raise Undecided(f'getattr_nested: unexpected signature {params}')
+    pool = ['alpha', 'beta', 'gamma']
+    n_worlds = 0
+    for n in range(0, 4):
+        names = pool[:n]
+        for depth, kind in [(None, 'none')] + [(d, k) for d in range(0, n + 1) for k in ('none', 'falsy')]:
+            for pass_none in (False, True):
+                forms = [('list', list(names)), ('tuple', tuple(names))] + ([('dotted str', '.'.join(names))] if n else [])
+                for fname, attrs in forms:
+                    want, wtrace = nested_spec(names, depth, kind, pass_none)
+                    sp = tuple(names[:depth]) if depth else None
+                    c = Conc(sp if kind == 'none' else None, 'getattr_nested', sp if kind == 'falsy' else None)
+                    root = PObj(()) if depth != 0 else (None if kind == 'none' else PObj((), True))
+                    env = {params[0]: root, params[1]: attrs, params[2]: pass_none}
+                    try:
+                        c.run(fg.node.body, env)
+                        got = ('return', None)
+                    except _Ret as r:
+                        got = ('return', r.v)
+                    except _Raise as r:
+                        got = ('raise', r.kind)
+                    except (_Brk, _Cont):
+                        raise Undecided('getattr_nested: break / continue outside a loop')
+                    n_worlds += 1
+                    if got != want or c.trace != wtrace:
+                        return n_worlds, dict(path=attrs, special_value=f'{kind} at depth {depth}', pass_none=pass_none, required=want, found=got, required_getattr_calls=wtrace, found_getattr_calls=c.trace)
+    return n_worlds, None
+
+
+# ====================================================================== CSV
+
 def check_csv(ctx):
     rep, m = ctx.rep, ctx.model
     ex = m.cls(f'{R}.CSVResultsExporter')
@@ -111,48 +1258,53 @@ def check_csv(ctx):
         rep.add('E2', ('docs/source/cli.rst', 108, 'docs.cli.csv-columns'), 'the exported header set equals the documented column set', set(headers) == documented, expected=sorted(documented), found=sorted(headers), stmt='documented columns')
     else:
         raise Undecided('docs/source/cli.rst not found (documented CSV columns)')
-    # E3
+    # E3: what reaches the csv writer, in which order
     fe = ex.methods['export']
     rep.functions.add(fe.qualname)
-    wr = [s for s in stmts_in(fe.node.body) if isinstance(s, ast.Assign) and isinstance(s.value, ast.Call) and u(s.value.func) == 'csv.writer']
-    rows = [c for c in calls_in(fe.node) if callee_attr(c) == 'writerow']
-    okw = len(wr) == 1 and len(rows) == 2 and all(u(c.func.value) == u(wr[0].targets[0]) for c in rows)
-    rep.add('E3', fe.site(wr[0] if wr else None), 'rows are emitted only through csv.writer (commas, quotes, newlines, non-ASCII stay parseable)', okw, expected='csv.writer(f, **opts).writerow', found=[u(c)[:60] for c in rows], stmt='csv writer')
-    hdr_calls = [c for c in rows if u(c.args[0]) == 'self.get_header()']
-    item_calls = [c for c in rows if u(c.args[0]).startswith('self.get_row(')]
-    okh = len(hdr_calls) == 1 and len(item_calls) == 1 and hdr_calls[0].lineno < item_calls[0].lineno \
-        and not any(isinstance(o, ast.For) for (_, _, o) in block_path(fe.node, next(s for s in stmts_in(fe.node.body) if isinstance(s, ast.Expr) and s.value is hdr_calls[0])))
-    rep.add('E3', fe.site(hdr_calls[0] if hdr_calls else None), 'the header is written once, before the rows', okh, expected='writerow(self.get_header()) then the item loop', found=[u(c.args[0]) for c in rows], stmt='header once')
-    loops = [s for s in stmts_in(fe.node.body) if isinstance(s, ast.For)]
-    okl = len(loops) == 1 and u(loops[0].iter) == f'{fe.params()[2]}.items' and item_calls and u(item_calls[0].args[0]) == f'self.get_row({u(loops[0].target)})'
-    rep.add('E3', fe.site(loops[0] if loops else None), 'one row per result item, in item order', okl, expected='for item in results.items: writer.writerow(self.get_row(item))', found=[u(l)[:80] for l in loops], stmt='row per item')
+    tr = csv_trace(m, fe)
+    rep.functions.update(tr['visited'])
+    stream = tr['stream']
+    ctor = tr['ctor']
+    ctor_ids = {id(c) for c in ctor}
+    file_ok = all(c.args and isinstance(c.args[0], ast.Name) and c.args[0].id in tr['files'] for c in ctor)
+    okw = len(ctor_ids) == 1 and file_ok and not tr['raw'] and bool(stream) and tr['calls'] == tr['handled']
+    rep.add('E3', fe.site(ctor[0] if ctor else None), 'rows are emitted only through csv.writer (commas, quotes, newlines, non-ASCII stay parseable)', okw, expected='every row goes through one csv.writer(f, **opts)',
+            found=dict(writers=[u(c)[:60] for c in ctor], rows=stream, bypassing=tr['raw']), stmt='csv writer')
+    hdr_seg = ('one', 'self.get_header()')
+    okh = stream.count(hdr_seg) == 1 and stream[0] == hdr_seg
+    rep.add('E3', fe.site(), 'the header is written once, before the rows', okh, expected='self.get_header() as the first row, nowhere else', found=stream, stmt='header once')
+    item_seg = ('each', f'self.get_row({HOLE})', f'{fe.params()[2]}.items')
+    okl = [s for s in stream if s != hdr_seg] == [item_seg]
+    rep.add('E3', fe.site(), 'one row per result item, in item order', okl, expected=[hdr_seg, item_seg], found=stream, stmt='row per item')
     gh, gr = ex.methods['get_header'], ex.methods['get_row']
     rep.functions.update({gh.qualname, gr.qualname})
-    rh = [s for s in gh.node.body if isinstance(s, ast.Return)]
-    rr = [s for s in gr.node.body if isinstance(s, ast.Return)]
-    okgh = len(rh) == 1 and isinstance(rh[0].value, ast.ListComp) and u(rh[0].value.generators[0].iter) == 'self.COLUMNS' and u(rh[0].value.elt) == u(rh[0].value.generators[0].target.elts[0])
-    okgr = len(rr) == 1 and isinstance(rr[0].value, ast.ListComp) and u(rr[0].value.generators[0].iter) == 'self.COLUMNS' and not rr[0].value.generators[0].ifs \
-        and isinstance(rr[0].value.elt, ast.Call) and u(rr[0].value.elt.func) == 'getattr_nested' and [u(a) for a in rr[0].value.elt.args[:2]] == [gr.params()[1], u(rr[0].value.generators[0].target.elts[1])] \
-        and is_const(get_arg(rr[0].value.elt, 2, 'pass_none'), True)
-    rep.account_returns('E3', gh, rh[:1], 'header')
-    rep.account_returns('E3', gr, rr[:1], 'row')
-    rep.add('E3', gh.site(), 'header cells are the first components of COLUMNS, in table order', okgh, expected='[name for name, _ in self.COLUMNS]', found=[u(r.value) for r in rh], stmt='get_header')
-    rep.add('E3', gr.site(), 'row cells are the second components of COLUMNS resolved on the item, in the same order, absent values as empty cells', okgr, expected='[getattr_nested(item, attrs, pass_none=True) for _, attrs in self.COLUMNS]',
-            found=[u(r.value) for r in rr], stmt='get_row')
     fg = m.func(f'{R}.getattr_nested')
     rep.functions.add(fg.qualname)
-    gmg = guard_map(fg.node)
-    lp = [s for s in fg.node.body if isinstance(s, ast.For)]
-    okn = False
-    if len(lp) == 1:
-        a = u(lp[0].target)
-        step = [s for s in lp[0].body if isinstance(s, ast.Assign)]
-        nret = [s for s in stmts_in(lp[0].body) if isinstance(s, ast.Return)]
-        okn = len(step) == 1 and u(step[0]) == f'obj = getattr(obj, {a})' and len(nret) == 1 and is_none(nret[0].value) and path_atoms(gmg[nret[0]]) == {('true', 'pass_none'), ('is', 'None', 'obj')} \
-            and nret[0].lineno < step[0].lineno
-    sp = [s for s in stmts_in(fg.node.body) if isinstance(s, ast.Assign) and u(s.value) == "attrs.split('.')"]
-    rep.add('E3', fg.site(), 'a dotted path is followed attribute by attribute; None short-circuits to None only when asked', okn and len(sp) == 1 and u(fg.node.body[-1]) == 'return obj', expected="split('.'); for attr: if pass_none and obj is None: return None; obj = getattr(obj, attr)",
-            found=[u(s)[:60] for s in fg.node.body], stmt='getattr_nested')
+    table = {'self.COLUMNS', f'{ex.name}.COLUMNS', 'type(self).COLUMNS', 'self.__class__.COLUMNS'}
+    ih = list_image(gh)
+    ir = list_image(gr)
+    okgh = ih['wrapper'] is None and not ih['ifs'] and u(ih['iter']) in table and u(ih['elt']) in component(ih, 0)
+    okgr = ir['wrapper'] is None and not ir['ifs'] and u(ir['iter']) in table and isinstance(ir['elt'], ast.Call) and m.resolve(gr.module, ir['elt'].func) == fg.qualname
+    cell = None
+    if okgr:
+        try:
+            b = bind_call(fg, ir['elt'], {}, 'get_row')
+            full = {p: b.get(p, ast.Name(id=p, ctx=ast.Load())) for p in fg.params()}
+            cell = [u(full[p]) for p in fg.params()]
+            okgr = cell[0] == gr.params()[1] and cell[1] in component(ir, 1) and is_const(full[fg.params()[2]], True)
+        except Undecided:
+            okgr = False
+    rep.account_returns('E3', gh, ih['returns'], 'header')
+    rep.account_returns('E3', gr, ir['returns'], 'row')
+    rep.add('E3', gh.site(), 'header cells are the first components of COLUMNS, in table order', okgh, expected='[name for name, _ in self.COLUMNS]', found=dict(cell=u(ih['elt']), loop=f"for {u(ih['target'])} in {u(ih['iter'])}", filters=[u(x) for x in ih['ifs']], reordered_by=ih['wrapper']),
+            stmt='get_header')
+    rep.add('E3', gr.site(), 'row cells are the second components of COLUMNS resolved on the item, in the same order, absent values as empty cells', okgr, expected='[getattr_nested(item, attrs, pass_none=True) for _, attrs in self.COLUMNS]',
+            found=dict(cell=u(ir['elt']), loop=f"for {u(ir['target'])} in {u(ir['iter'])}", filters=[u(x) for x in ir['ifs']], reordered_by=ir['wrapper']), stmt='get_row')
+    nw, bad = check_getattr_nested(fg)
+    rep.info['getattr_nested_worlds'] = nw
+    rep.add('E3', fg.site(), 'a dotted path is followed attribute by attribute; None short-circuits to None only when asked', bad is None,
+            expected="split('.') of a str path; for attr: if pass_none and obj is None: return None; obj = getattr(obj, attr)  (same result and same getattr calls on every chain of <= 3 attributes x position of None x pass_none)",
+            found=bad if bad is not None else f'{nw} evaluations agree', stmt='getattr_nested')
     init = ex.methods['__init__']
     dflt = {u(get_arg(c, 0)): u(get_arg(c, 1)) for c in calls_in(init.node) if callee_attr(c) == 'setdefault'}
     rep.add('E3', init.site(), 'default dialect quotes minimally with LF line endings', dflt.get("'quoting'") == 'csv.QUOTE_MINIMAL' and dflt.get("'lineterminator'") == "'\\n'", expected="quoting=csv.QUOTE_MINIMAL, lineterminator='\\n'", found=dflt,
@@ -169,14 +1321,22 @@ def registry(ci):
     return out
 
 
-def todict_fields(f):
-    for c in calls_in(f.node):
-        if u(c.func) == '_todict' and len(c.args) == 2:
-            try:
-                return u(c.args[0]), list(ast.literal_eval(c.args[1]))
-            except Exception:
-                return u(c.args[0]), None
-    return None, None
+def model_fields(m, v, param, model):
+    """Entries of a dict image whose value is an attribute chain -> (fields read from the object itself, chains that do not resolve
+    on the model, chains read from something else)."""
+    own, bad, foreign = [], [], []
+    for k, x in v.items:
+        t = canon(x)
+        if not (isinstance(t, str) and re.fullmatch(r'[A-Za-z_]\w*(\.[A-Za-z_]\w*)+', t)):
+            continue
+        ch = attr_chain(t, param)
+        if ch is None:
+            foreign.append(f'{k}={t}')
+        elif not resolve_path(m, model, ch)[0]:
+            bad.append(f'{k}={t}')
+        else:
+            own.append((k, ch))
+    return own, bad, foreign
 
 
 def check_json(ctx):
@@ -200,36 +1360,199 @@ def check_json(ctx):
     rep.require(fi is not None, 'JSONResultsExporter: no QueryResultItem image')
     rep.functions.add(fi.qualname)
     it = fi.params()[1]
-    rr = [s for s in fi.node.body if isinstance(s, ast.Return)]
-    kw = {k.arg: u(k.value) for k in rr[0].value.keywords} if rr and isinstance(rr[0].value, ast.Call) and u(rr[0].value.func) == 'dict' else {}
+    kw = as_dict(dict_image(rep, m, fi, 'JSON item'))
     want = {'query': f'{it}.input', 'predicted_taxon': f'{it}.report_taxon', 'next_taxon': f'{it}.classifier_result.next_taxon', 'closest_genomes': f'{it}.closest_genomes'}
     rep.add('E4', fi.site(), 'JSON item: label source, reported taxon, next taxon and closest genomes of the same item', kw == want, expected=want, found=kw, stmt='json item image')
     fin = reg.get('QueryInput')
-    rr = [s for s in fin.node.body if isinstance(s, ast.Return)] if fin else []
-    kw = {k.arg: u(k.value) for k in rr[0].value.keywords} if rr and isinstance(rr[0].value, ast.Call) else {}
-    ip = fin.params()[1] if fin else 'input'
-    rep.add('E4', fin.site() if fin else je.site(), 'JSON query: carries the label (and the file path/format when there is a file)', kw.get('name') == f'{ip}.label' and kw.get('path', '').endswith(f'{ip}.file.path') and kw.get('format', '').endswith(f'{ip}.file.format'),
-            expected=f'name={ip}.label', found=kw, stmt='json query image')
+    rep.require(fin is not None, 'JSONResultsExporter: no QueryInput image')
+    rep.functions.add(fin.qualname)
+    ip = fin.params()[1]
+    kw = as_dict(dict_image(rep, m, fin, 'JSON query'))
+    nofile = (('is', 'None', f'{ip}.file'),)
+    wantq = {'name': f'{ip}.label', 'path': ('if', nofile, 'None', f'{ip}.file.path'), 'format': ('if', nofile, 'None', f'{ip}.file.format')}
+    rep.add('E4', fin.site(), 'JSON query: carries the label (and the file path/format when there is a file)', all(kw.get(k) == v for k, v in wantq.items()),
+            expected=wantq, found=kw, stmt='json query image')
+    images = {}
     for cname, model in (('Taxon', 'gambit.db.models.Taxon'), ('AnnotatedGenome', 'gambit.db.models.AnnotatedGenome'), ('ReferenceGenomeSet', 'gambit.db.models.ReferenceGenomeSet')):
         f = reg.get(cname)
         rep.require(f is not None, f'JSONResultsExporter: no {cname} image')
         rep.functions.add(f.qualname)
-        obj, fields = todict_fields(f)
-        bad = [a for a in (fields or []) if attr_type(m, model, a)[0] != 'ok']
-        rep.add('E4', f.site(), f'JSON {cname}: every listed field is an attribute of the model and is read from the object itself', fields is not None and not bad and obj == f.params()[1], expected='declared attributes', found=bad or fields,
-                stmt=f'json {cname} fields')
+        v = dict_image(rep, m, f, f'JSON {cname}')
+        own, bad, foreign = model_fields(m, v, f.params()[1], model)
+        images[cname] = own
+        rep.add('E4', f.site(), f'JSON {cname}: every listed field is an attribute of the model and is read from the object itself', bool(own) and not bad and not foreign, expected='declared attributes',
+                found=(bad + foreign) or [k for k, _ in own], stmt=f'json {cname} fields')
     ft = reg['Taxon']
-    _, tf = todict_fields(ft)
-    rep.add('E4', ft.site(), 'JSON taxon carries name, rank, NCBI id and threshold (the CSV taxon columns)', tf is not None and {'name', 'rank', 'ncbi_id', 'distance_threshold'} <= set(tf), expected='name, rank, ncbi_id, distance_threshold', found=tf, stmt='json taxon columns')
+    tf = {k for k, ch in images['Taxon'] if ch == k}
+    rep.add('E4', ft.site(), 'JSON taxon carries name, rank, NCBI id and threshold (the CSV taxon columns)', {'name', 'rank', 'ncbi_id', 'distance_threshold'} <= tf, expected='name, rank, ncbi_id, distance_threshold', found=sorted(tf), stmt='json taxon columns')
     fr = reg.get('QueryResults')
-    body = [u(s) for s in fr.node.body] if fr else []
-    dn = u(fr.node.body[-1].value) if fr and isinstance(fr.node.body[-1], ast.Return) else None
-    rep.add('E4', fr.site() if fr else je.site(), 'JSON results: the shallow attrs dict of the results (items kept in order), parameters omitted', fr is not None and f'{dn} = asdict({fr.params()[1]}, recurse=False)' in body and f"del {dn}['params']" in body
-            and len(body) <= 4, expected="asdict(results, recurse=False); del data['params']", found=body, stmt='json results image')
+    rep.require(fr is not None, 'JSONResultsExporter: no QueryResults image')
+    rep.functions.add(fr.qualname)
+    rv = canon(image(m, fr))
+    wantr = ('minus', f'asdict({fr.params()[1]}, recurse=False)', ('params',))
+    rep.add('E4', fr.site(), 'JSON results: the shallow attrs dict of the results (items kept in order), parameters omitted', rv == wantr, expected="asdict(results, recurse=False); del data['params']", found=rv, stmt='json results image')
     # GenomeMatch / ClassifierResult fall to the generic converter: distance + genome are attrs fields
     gmc = m.cls('gambit.classify.GenomeMatch')
     rep.add('E4', gmc.site(), 'closest-genome entries expose genome, distance and matched taxon (attrs fields, generic conversion)', list(gmc.annotations)[:3] == ['genome', 'distance', 'matched_taxon'], expected=['genome', 'distance', 'matched_taxon'],
             found=list(gmc.annotations), stmt='genome match fields')
+
+
+# ====================================================================== archive
+
+def local_resolver(fi):
+    """expr -> expr with single-assignment locals replaced by their definitions (flow-insensitive, parameters untouched)."""
+    env = {}
+    params = set(fi.params())
+    for s in stmts_in(fi.node.body):
+        for t in assigned_targets_names(s):
+            env.setdefault(t, []).append(s)
+    single = {}
+    for n, ds in env.items():
+        if n in params or len(ds) != 1:
+            continue
+        v = def_value(ds[0])
+        if v is not None:
+            single[n] = v
+    resolved = {}
+
+    def res(name, depth=0):
+        if name in resolved:
+            return resolved[name]
+        if depth > 6:
+            raise Undecided(f'{fi.qualname}: circular local definitions at {name!r}')
+        v = single[name]
+        deps = {n.id for n in ast.walk(v) if isinstance(n, ast.Name) and n.id in single and n.id != name}
+        e = subst(v, {d: res(d, depth + 1) for d in deps}, fi.name)
+        resolved[name] = e
+        return e
+
+    def rs(e):
+        deps = {n.id for n in ast.walk(e) if isinstance(n, ast.Name) and n.id in single}
+        return subst(e, {d: res(d) for d in deps}, fi.name)
+    return rs
+
+
+def assigned_targets_names(s):
+    out = []
+    tg = []
+    if isinstance(s, ast.Assign):
+        tg = s.targets
+    elif isinstance(s, (ast.AugAssign, ast.AnnAssign)):
+        tg = [s.target]
+    elif isinstance(s, (ast.For, ast.AsyncFor)):
+        tg = [s.target]
+    elif isinstance(s, (ast.With, ast.AsyncWith)):
+        tg = [i.optional_vars for i in s.items if i.optional_vars is not None]
+    for t in tg:
+        out += [n.id for n in ast.walk(t) if isinstance(n, ast.Name) and isinstance(n.ctx, ast.Store)]
+    return out
+
+
+def query_chain(m, module, e):
+    """`<session>.query(M)[.join(..)].filter_by(k=v) / .filter(M.k == v) ... .one()` -> dict(terminal=, conds={(column, value text)}) or None."""
+    calls = []
+    cur = e
+    while isinstance(cur, ast.Call) and isinstance(cur.func, ast.Attribute):
+        calls.append((cur.func.attr, cur))
+        cur = cur.func.value
+    calls.reverse()
+    if len(calls) < 2 or calls[0][0] != 'query':
+        return None
+    conds = set()
+    for name, c in calls[1:]:
+        if name == 'filter_by':
+            if c.args or any(k.arg is None for k in c.keywords):
+                return None
+            conds |= {(k.arg, u(k.value)) for k in c.keywords}
+        elif name in ('filter', 'where'):
+            for a in c.args:
+                if not (isinstance(a, ast.Compare) and len(a.ops) == 1 and isinstance(a.ops[0], (ast.Eq, ast.Is))):
+                    return None
+                sides = [a.left, a.comparators[0]]
+                col = [x for x in sides if isinstance(x, ast.Attribute) and isinstance(x.value, ast.Name) and m.resolve(module, x.value) in m.classes]
+                if len(col) != 1:
+                    return None
+                other = sides[1] if col[0] is sides[0] else sides[0]
+                conds.add((col[0].attr, u(other)))
+    return dict(terminal=calls[-1][0], conds=conds)
+
+
+def is_contextmanager(m, fi):
+    return any(u(d) in ('contextmanager', 'contextlib.contextmanager') or m.resolve(fi.module, d) == 'contextlib.contextmanager' for d in fi.decorators if not isinstance(d, ast.Call))
+
+
+def cm_entry_stores(m, fi, call, rs):
+    """`with self.M(args):` where M is a generator-based @contextmanager of the package: the attribute stores executed before
+    its single yield, as {target text: value expr in the caller's terms}.  None when the callee is not such a method."""
+    r = m.resolve_call(fi, call)
+    tgt = m.functions.get(r)
+    if tgt is None or not is_contextmanager(m, tgt):
+        return None
+    where = f'{fi.name} -> {tgt.name}'
+    ys = [n for n in ast.walk(tgt.node) if isinstance(n, (ast.Yield, ast.YieldFrom))]
+    if len(ys) != 1 or isinstance(ys[0], ast.YieldFrom):
+        raise Undecided(f'{where}: context manager with {len(ys)} yield points')
+    binding = {p: rs(v) for p, v in bind_call(tgt, call, {}, where, keep_identity=True).items()}
+    stores = {}
+    done = []
+
+    def pre(stmts):
+        for s in stmts:
+            if done:
+                return
+            if isinstance(s, ast.Expr) and s.value is ys[0]:
+                done.append(True)
+                return
+            if isinstance(s, ast.Try):
+                pre(s.body)
+                continue
+            if any(n is ys[0] for n in ast.walk(s)):
+                raise Undecided(f'{where}: the yield of the context manager sits under {type(s).__name__}, which the rule cannot evaluate')
+            if isinstance(s, ast.Assign) and len(s.targets) == 1 and isinstance(s.targets[0], ast.Attribute):
+                stores[u(s.targets[0])] = subst(s.value, binding, where)
+            elif isinstance(s, ast.Assign) and len(s.targets) == 1 and isinstance(s.targets[0], ast.Name):
+                binding[s.targets[0].id] = subst(s.value, binding, where)
+            elif isinstance(s, ast.Pass) or (isinstance(s, ast.Expr) and isinstance(s.value, ast.Constant)):
+                continue
+            else:
+                raise Undecided(f'{where}: statement before the yield the rule cannot evaluate: {u(s)[:80]}')
+    pre(tgt.node.body)
+    if not done:
+        raise Undecided(f'{where}: yield of the context manager not found at statement level')
+    return tgt, stores
+
+
+def attr_value_during(m, fi, stmt, attr_text, rs):
+    """Values stored into `attr_text` (e.g. self._current_genomeset) that are in force while `stmt` of fi runs:
+    a preceding direct assignment, or the entry part of a package context manager whose `with` block contains stmt."""
+    vals = []
+    used = []
+    for s in stmts_in(fi.node.body):
+        if isinstance(s, ast.Assign) and any(u(t) == attr_text for t in s.targets) and not is_none(s.value) and s.lineno <= stmt.lineno and s is not stmt:
+            vals.append((s, rs(s.value)))
+    for (_, _, owner) in block_path(fi.node, stmt) or []:
+        if isinstance(owner, ast.With):
+            for i in owner.items:
+                if isinstance(i.context_expr, ast.Call):
+                    r = cm_entry_stores(m, fi, i.context_expr, rs)
+                    if r is None:
+                        continue
+                    tgt, stores = r
+                    used.append(tgt)
+                    if attr_text in stores:
+                        vals.append((owner, stores[attr_text]))
+    return vals, used
+
+
+def keys_read(fi, rs, mapping_text):
+    """Constant keys a function reads from the mapping denoted by mapping_text (after local substitution): m['k'], m.get('k'), m.pop('k')."""
+    out = set()
+    for n in ast.walk(fi.node):
+        if isinstance(n, ast.Subscript) and isinstance(n.ctx, ast.Load) and isinstance(n.slice, ast.Constant) and u(rs(n.value)) == mapping_text:
+            out.add(n.slice.value)
+        elif isinstance(n, ast.Call) and isinstance(n.func, ast.Attribute) and n.func.attr in ('get', 'pop') and n.args and isinstance(n.args[0], ast.Constant) and u(rs(n.func.value)) == mapping_text:
+            out.add(n.args[0].value)
+    return out
 
 
 def check_archive(ctx):
@@ -239,58 +1562,77 @@ def check_archive(ctx):
     reg = registry(wr)
     fi = rd.methods['_init_converter']
     rep.functions.add(fi.qualname)
+    eff = []
+    image(m, fi, eff)
+    conv = [e for e in eff if e[0] == 'store' and e[1] == 'self._converter']
+    conv_txt = [canon(e[2]) for e in conv]
     hooks = {}
-    for c in calls_in(fi.node):
-        if callee_attr(c) == 'register_structure_hook' and len(c.args) == 2:
-            hooks[u(c.args[0])] = u(c.args[1])
+    for e in eff:
+        if e[0] == 'call' and callee_attr(e[1]) == 'register_structure_hook' and len(e[1].args) == 2 and isinstance(e[1].func, ast.Attribute) \
+                and u(e[1].func.value) in ['self._converter'] + [t for t in conv_txt if isinstance(t, str)]:
+            hooks[u(e[1].args[0])] = u(e[1].args[1])
     rep.floor('E5', 'archive writer registrations', len(reg), 3)
     rep.add('E5', wr.site(), 'classes with a reduced (key-only) image on write == classes with a structure hook on read', set(reg) == set(hooks), expected=sorted(reg), found=sorted(hooks), stmt='registry agreement')
-    conv = [s for s in fi.node.body if isinstance(s, ast.Assign) and u(s.targets[0]) == 'self._converter']
-    rep.add('E5', fi.site(conv[0] if conv else None), 'the reader starts from a copy of the shared converter (all generic hooks identical on both sides)', len(conv) == 1 and u(conv[0].value) == 'gjson.converter.copy()', expected='gjson.converter.copy()',
-            found=[u(c.value) for c in conv], stmt='reader converter')
+    rep.add('E5', fi.site(), 'the reader starts from a copy of the shared converter (all generic hooks identical on both sides)', len(conv) == 1 and conv_txt[0] == 'gjson.converter.copy()', expected='gjson.converter.copy()',
+            found=conv_txt, stmt='reader converter')
+    rf = rd.methods['results_from_json']
+    rs_rf = local_resolver(rf)
     for cname, f in sorted(reg.items()):
         rep.functions.add(f.qualname)
-        obj, fields = todict_fields(f)
+        v = dict_image(rep, m, f, f'archive {cname}')
+        obj = f.params()[1]
+        fields = v.keys()
+        own = [k for k, x in v.items if canon(x) == f'{obj}.{k}']
         hook = hooks.get(cname, '')
         hf = rd.methods.get(hook.replace('self.', ''))
         read_keys = set()
         if hf is not None:
             rep.functions.add(hf.qualname)
-            for n in ast.walk(hf.node):
-                if isinstance(n, ast.Subscript) and u(n.value) == hf.params()[1] and isinstance(n.slice, ast.Constant):
-                    read_keys.add(n.slice.value)
+            read_keys |= keys_read(hf, local_resolver(hf), hf.params()[1])
         if cname == 'ReferenceGenomeSet':
-            rf = rd.methods['results_from_json']
             rep.functions.add(rf.qualname)
-            for n in ast.walk(rf.node):
-                if isinstance(n, ast.Subscript) and u(n.value) == f"{rf.params()[1]}['genomeset']" and isinstance(n.slice, ast.Constant):
-                    read_keys.add(n.slice.value)
-        rep.add('E5', f.site(), f'archive {cname}: the key fields written are exactly the fields the reader uses to find the object again', fields is not None and set(fields) == read_keys and obj == f.params()[1], expected=sorted(fields or []),
-                found=sorted(read_keys), stmt=f'archive {cname} keys')
+            read_keys |= keys_read(rf, rs_rf, f"{rf.params()[1]}['genomeset']")
+            for cm in [x for s in stmts_in(rf.node.body) if isinstance(s, ast.With) for i in s.items if isinstance(i.context_expr, ast.Call) for x in [m.functions.get(m.resolve_call(rf, i.context_expr))] if x is not None]:
+                rep.functions.add(cm.qualname)
+        rep.add('E5', f.site(), f'archive {cname}: the key fields written are exactly the fields the reader uses to find the object again', bool(fields) and set(fields) == read_keys and own == fields, expected=sorted(f'{k}={obj}.{k}' for k in read_keys),
+                found=sorted(f'{k}={canon(x)}' for k, x in v.items), stmt=f'archive {cname} keys')
     # lookups are confined to the genome set of the results
     for hname, model in (('_structure_genome', 'AnnotatedGenome'), ('_structure_taxon', 'Taxon')):
         hf = rd.methods[hname]
+        rs = local_resolver(hf)
         src = u(hf.node)
-        okq = 'self._current_genomeset.id' in src and '.one()' in src and 'genome_set_id' in src and "data['key']" in src
-        rep.add('E5', hf.site(), f'{model} is looked up by key within the genome set of the results, exactly one match required', okq, expected="filter(genome_set_id == gset.id, key == data['key']).one()", found=src[:100].replace('\n', ' '), stmt=f'{hname} query')
-    rf = rd.methods['results_from_json']
+        rets = [s for s in stmts_in(hf.node.body) if isinstance(s, ast.Return) and s.value is not None]
+        qs = [query_chain(m, hf.module, rs(s.value)) for s in rets]
+        if rets and all(q is not None for q in qs):
+            dp = hf.params()[1]
+            okq = all(q['terminal'] == 'one' and ('genome_set_id', 'self._current_genomeset.id') in q['conds'] and q['conds'] & {('key', f"{dp}['key']"), ('key', f"{dp}.get('key')")} for q in qs)
+            found = [dict(terminal=q['terminal'], conditions=sorted(q['conds'])) for q in qs]
+        else:
+            okq = 'self._current_genomeset.id' in src and '.one()' in src and 'genome_set_id' in src and "data['key']" in src
+            found = src[:100].replace('\n', ' ')
+        rep.add('E5', hf.site(), f'{model} is looked up by key within the genome set of the results, exactly one match required', okq, expected="filter(genome_set_id == gset.id, key == data['key']).one()", found=found, stmt=f'{hname} query')
     st = [c for c in calls_in(rf.node) if u(c.func) == 'self._converter.structure']
     rep.add('E5', rf.site(), 'the whole document is structured back into QueryResults', len(st) == 1 and [u(a) for a in st[0].args] == [rf.params()[1], 'QueryResults'], expected='self._converter.structure(data, QueryResults)', found=[u(c) for c in st],
             stmt='structure')
-    gq = [s for s in stmts_in(rf.node.body) if isinstance(s, ast.Assign) and u(s.targets[0]) == 'self._current_genomeset' and not is_none(s.value)]
+    # the genome set the hooks see while the document is structured
     okg = False
-    if len(gq) == 1 and u(gq[0].value).endswith('.one()'):
-        fb = [c for c in calls_in(gq[0].value) if callee_attr(c) == 'filter_by']
-        if len(fb) == 1:
-            kws = {k.arg: k.value for k in fb[0].keywords}
-
-            def src_of(e):
-                if isinstance(e, ast.Name):
-                    dd = reaching_def(rf.node, e.id, gq[0])
-                    e = def_value(dd) if dd not in (None, PARAM, AMBIGUOUS) else None
-                return u(e)
-            okg = set(kws) == {'key', 'version'} and src_of(kws['key']) == f"{rf.params()[1]}['genomeset']['key']" and src_of(kws['version']) == f"{rf.params()[1]}['genomeset']['version']"
-    rep.add('E5', rf.site(gq[0] if gq else None), 'the genome set is found by (key, version), exactly one match required', okg, expected='filter_by(key=..., version=...).one()', found=[u(g.value) for g in gq], stmt='genome set lookup')
+    found = []
+    site = rf.site()
+    if len(st) == 1:
+        sstmt = next(s for s in stmts_in(rf.node.body) if not isinstance(s, (ast.With, ast.Try, ast.If, ast.For, ast.While)) and any(n is st[0] for n in ast.walk(s)))
+        vals, used = attr_value_during(m, rf, sstmt, 'self._current_genomeset', rs_rf)
+        if not vals:
+            unknown = [u(i.context_expr)[:60] for (_, _, o) in block_path(rf.node, sstmt) or [] if isinstance(o, ast.With) for i in o.items
+                       if not (isinstance(i.context_expr, ast.Call) and m.functions.get(m.resolve_call(rf, i.context_expr)) is not None)]
+            rep.require(not unknown, f'results_from_json: the document is structured under `with {unknown[0] if unknown else ""}`, a context manager the rule cannot see into (does it set self._current_genomeset?)')
+        found = [u(v) for _, v in vals]
+        if len(vals) == 1:
+            site = rf.site(vals[0][0])
+            q = query_chain(m, rf.module, vals[0][1])
+            rep.require(q is not None or not isinstance(vals[0][1], ast.Call), f'results_from_json: the value installed as self._current_genomeset ({u(vals[0][1])[:80]}) is not a session query the rule can evaluate')
+            dk = f"{rf.params()[1]}['genomeset']"
+            okg = q is not None and q['terminal'] == 'one' and q['conds'] == {('key', f"{dk}['key']"), ('version', f"{dk}['version']")}
+    rep.add('E5', site, 'the genome set is found by (key, version), exactly one match required', okg, expected='filter_by(key=..., version=...).one()', found=found, stmt='genome set lookup')
     # fields of the result graph not reduced: attrs classes handled by the generic converter on both sides
     for q in ('gambit.query.QueryResults', 'gambit.query.QueryResultItem', 'gambit.query.QueryInput', 'gambit.query.QueryParams', 'gambit.classify.ClassifierResult', 'gambit.classify.GenomeMatch'):
         ci = m.cls(q)
@@ -346,7 +1688,10 @@ def check(ctx):
     rep.rule('E5', 'archive writer/reader registries and key fields agree; attrs classes round-trip generically')
     rep.rule('E6', 'lossless scalar hooks')
     rep.trusted += ['cattrs structuring of annotated attrs fields', 'csv module quoting / parse-back', 'float(np.float32) is exact; json round-trips a Python float exactly (repr)']
-    rep.assumptions += ['Agreement clauses only: cattrs behaviour per field type and CSV parse-back are trusted (DESIGN.md 5/C11).']
+    rep.assumptions += ['Agreement clauses only: cattrs behaviour per field type and CSV parse-back are trusted (DESIGN.md 5/C11).',
+                        'getattr_nested is decided by exhaustive abstract evaluation of its body on attribute chains of length 0..3 x position of a None / of a falsy present value x pass_none x path given as dotted str / list / tuple '
+                        '(result and sequence of getattr calls must equal the specification); longer chains are assumed to behave like these (the loop body does not depend on the position).',
+                        'Images (rows handed to the csv writer, dicts returned by the converters, cells of a row) are computed symbolically: locals are replaced by their definitions, i.e. the expressions involved are assumed free of side effects.']
     check_csv(ctx)
     check_json(ctx)
     check_archive(ctx)
@@ -374,4 +1719,75 @@ VARIANTS = [
     V('header and row built from different orders', 'B', _R, "return [name for name, _ in self.COLUMNS]", "return sorted(name for name, _ in self.COLUMNS)", 'E3'),
     V('json query label from the file path', 'B', _R, "\t\t\tname=input.label,", "\t\t\tname=str(input.file),", 'E4'),
     V('E: model attribute reordering irrelevant', 'E', _R, "\t\t('query', 'input.label'),\n", "\t\t('query', 'input.label'),  # label\n"),
+]
+
+# ---- idioms accepted since the rules decide on images (row stream / dict image / list image / finite-domain evaluation): each E form has a broken twin
+_EXPORT = "\t\t\twriter = csv.writer(f, **self.format_opts)\n\n\t\t\twriter.writerow(self.get_header())\n\t\t\tfor item in results.items:\n\t\t\t\twriter.writerow(self.get_row(item))\n"
+_GEN = "\t\t\tcsv.writer(f, **self.format_opts).writerows(self._all_rows(results))\n\n\tdef _all_rows(self, res):\n%s"
+_NESTED = "\tif isinstance(attrs, str):\n\t\tattrs = attrs.split('.')\n\n\tfor attr in attrs:\n\t\tif pass_none and obj is None:\n\t\t\treturn None\n\n\t\tobj = getattr(obj, attr)\n\n\treturn obj\n"
+_UNSWITCHED = "\tnames = attrs.split('.') if isinstance(attrs, str) else attrs\n\tif %s:\n\t\tfor name in names:\n\t\t\tobj = getattr(obj, name)\n\t\treturn obj\n\tfor name in names:\n%s\treturn obj\n"
+_ROW = "\t\treturn [getattr_nested(item, attrs, pass_none=True) for _, attrs in self.COLUMNS]\n"
+_ITEM = "\t\treturn dict(\n\t\t\tquery=item.input,\n\t\t\tpredicted_taxon=item.report_taxon,\n\t\t\tnext_taxon=item.classifier_result.next_taxon,\n\t\t\tclosest_genomes=item.closest_genomes,\n\t\t)\n"
+_INPUT = "\t\treturn dict(\n\t\t\tname=input.label,\n\t\t\tpath=None if input.file is None else input.file.path,\n\t\t\tformat=None if input.file is None else input.file.format,\n\t\t)\n"
+_INPUT2 = "\t\tdata = {'name': input.label, 'path': None, 'format': None}\n\t\tfile = input.file\n\t\tif file is not None:\n\t\t\tdata['path'] = file.%s\n\t\t\tdata['format'] = file.%s\n\t\treturn data\n"
+_TAXON = "\t\treturn _todict(taxon, ['id', 'key', 'name', 'ncbi_id', 'rank', 'distance_threshold'])\n"
+_TAXON2 = "\t\treturn _todict(taxon, self._TAXON_ATTRS)\n\n\t_TAXON_ATTRS = ('id', 'key', 'name', %s, 'rank', 'distance_threshold')\n"
+_GENOME = "\t\tdata = _todict(genome, ['key', 'description', 'organism', 'ncbi_db', 'ncbi_id', 'genbank_acc', 'refseq_acc'])\n\t\tdata['id'] = genome.genome_id\n\t\tdata['taxonomy'] = list(genome.taxon.ancestors(incself=True))\n\t\treturn data\n"
+_GENOME2 = "\t\treturn dict(\n\t\t\t_todict(genome, ['key', 'description', 'organism', 'ncbi_db', 'ncbi_id', 'genbank_acc', 'refseq_acc']),\n\t\t\tid=genome.%s,\n\t\t\ttaxonomy=list(genome.taxon.ancestors(incself=True)),\n\t\t)\n"
+_HOOKS = "\t\tself._converter.register_structure_hook(ReferenceGenomeSet, self._structure_genomeset)\n\t\tself._converter.register_structure_hook(AnnotatedGenome, self._structure_genome)\n\t\tself._converter.register_structure_hook(Taxon, self._structure_taxon)\n"
+_HOOKS2 = "\t\thooks = [\n\t\t\t(ReferenceGenomeSet, self._structure_genomeset),\n\t\t\t(AnnotatedGenome, self._structure_genome),\n%s\t\t]\n\t\tfor cls, hook in hooks:\n\t\t\tself._converter.register_structure_hook(cls, hook)\n"
+_LOAD = "\t\tgset_key = data['genomeset']['key']\n\t\tgset_version = data['genomeset']['version']\n\t\tself._current_genomeset =  self.session.query(ReferenceGenomeSet) \\\n\t\t\t.filter_by(key=gset_key, version=gset_version) \\\n\t\t\t.one()\n\n\t\ttry:\n\t\t\treturn self._converter.structure(data, QueryResults)\n\n\t\tfinally:\n\t\t\tself._current_genomeset = None\n"
+_LOAD2 = "\t\tgset_data = data['genomeset']\n\t\tgset = self.session.query(ReferenceGenomeSet).filter_by(%s).one()\n\t\twith self._using_genomeset(gset):\n\t\t\treturn self._converter.structure(data, QueryResults)\n\n\t@contextmanager\n\tdef _using_genomeset(self, gset):\n%s\t\ttry:\n\t\t\tyield\n\t\tfinally:\n\t\t\tself._current_genomeset = None\n"
+_CM_IMPORT = ((_R, "import csv\n", "import csv\nfrom contextlib import contextmanager\n"),)
+_TAXQ = "\t\treturn self.session.query(Taxon).filter_by(genome_set_id=gset_id, key=key).one()"
+VARIANTS += [
+    # E3 row stream
+    V('E: rows from a lazy generator method through writerows', 'E', _R, _EXPORT, _GEN % "\t\tyield self.get_header()\n\t\tyield from map(self.get_row, res.items)\n"),
+    V('generator method yields the header after the rows', 'B', _R, _EXPORT, _GEN % "\t\tyield from map(self.get_row, res.items)\n\t\tyield self.get_header()\n", 'E3'),
+    V('generator method walks the items backwards', 'B', _R, _EXPORT, _GEN % "\t\tyield self.get_header()\n\t\tyield from map(self.get_row, reversed(res.items))\n", 'E3'),
+    V('generator method skips items without prediction', 'B', _R, _EXPORT, _GEN % "\t\tyield self.get_header()\n\t\tfor item in res.items:\n\t\t\tif item.report_taxon is not None:\n\t\t\t\tyield self.get_row(item)\n", 'E3'),
+    V('E: writerows over a generator expression', 'E', _R, "\t\t\tfor item in results.items:\n\t\t\t\twriter.writerow(self.get_row(item))\n", "\t\t\twriter.writerows(self.get_row(item) for item in results.items)\n"),
+    V('writerows over a filtered generator expression', 'B', _R, "\t\t\tfor item in results.items:\n\t\t\t\twriter.writerow(self.get_row(item))\n", "\t\t\twriter.writerows(self.get_row(item) for item in results.items if item.report_taxon is not None)\n", 'E3'),
+    V('E: row bound to a local before it is written', 'E', _R, "\t\t\t\twriter.writerow(self.get_row(item))\n", "\t\t\t\trow = self.get_row(item)\n\t\t\t\twriter.writerow(row)\n"),
+    V('row local built from the first item', 'B', _R, "\t\t\t\twriter.writerow(self.get_row(item))\n", "\t\t\t\trow = self.get_row(results.items[0])\n\t\t\t\twriter.writerow(row)\n", 'E3'),
+    V('header repeated for every item', 'B', _R, "\t\t\t\twriter.writerow(self.get_row(item))\n", "\t\t\t\twriter.writerow(self.get_header())\n", 'E3'),
+    V('rows only written for predicted items', 'B', _R, "\t\t\t\twriter.writerow(self.get_row(item))\n", "\t\t\t\tif item.report_taxon is not None:\n\t\t\t\t\twriter.writerow(self.get_row(item))\n", 'E3'),
+    # E3 getattr_nested decided by evaluation on a finite domain
+    V('E: getattr_nested loop-unswitched, break instead of return None', 'E', _R, _NESTED, _UNSWITCHED % ("not pass_none", "\t\tif obj is None:\n\t\t\tbreak\n\t\tobj = getattr(obj, name)\n")),
+    V('unswitched getattr_nested tests None after the step', 'B', _R, _NESTED, _UNSWITCHED % ("not pass_none", "\t\tobj = getattr(obj, name)\n\t\tif obj is None:\n\t\t\tbreak\n"), 'E3'),
+    V('unswitched getattr_nested with the flag inverted', 'B', _R, _NESTED, _UNSWITCHED % ("pass_none", "\t\tif obj is None:\n\t\t\tbreak\n\t\tobj = getattr(obj, name)\n"), 'E3'),
+    V('E: getattr_nested with a guard clause per step', 'E', _R, "\t\tif pass_none and obj is None:\n\t\t\treturn None\n\n\t\tobj = getattr(obj, attr)\n", "\t\tif obj is not None or not pass_none:\n\t\t\tobj = getattr(obj, attr)\n\t\t\tcontinue\n\t\treturn None\n"),
+    V('getattr_nested stops at any falsy value', 'B', _R, "\t\tif pass_none and obj is None:\n", "\t\tif pass_none and not obj:\n", 'E3', also=()),
+    V('getattr_nested follows the path backwards', 'B', _R, "\tfor attr in attrs:\n", "\tfor attr in attrs[::-1]:\n", 'E3'),
+    # E3 list images
+    V('E: row built by an append loop with a local', 'E', _R, _ROW, "\t\trow = []\n\t\tfor _, attrs in self.COLUMNS:\n\t\t\tvalue = getattr_nested(item, attrs, pass_none=True)\n\t\t\trow.append(value)\n\t\treturn row\n"),
+    V('append loop resolves the header component', 'B', _R, _ROW, "\t\trow = []\n\t\tfor name, attrs in self.COLUMNS:\n\t\t\tvalue = getattr_nested(item, name, pass_none=True)\n\t\t\trow.append(value)\n\t\treturn row\n", 'E3'),
+    V('append loop without pass_none', 'B', _R, _ROW, "\t\trow = []\n\t\tfor _, attrs in self.COLUMNS:\n\t\t\tvalue = getattr_nested(item, attrs)\n\t\t\trow.append(value)\n\t\treturn row\n", 'E3'),
+    V('E: header cells by index', 'E', _R, "return [name for name, _ in self.COLUMNS]", "return [col[0] for col in self.COLUMNS]"),
+    V('header cells by the wrong index', 'B', _R, "return [name for name, _ in self.COLUMNS]", "return [col[1] for col in self.COLUMNS]", 'E3'),
+    # E4 dict images
+    V('E: json item as a dict literal', 'E', _R, _ITEM, "\t\treturn {\n\t\t\t'query': item.input,\n\t\t\t'predicted_taxon': item.report_taxon,\n\t\t\t'next_taxon': item.classifier_result.next_taxon,\n\t\t\t'closest_genomes': item.closest_genomes,\n\t\t}\n"),
+    V('json item literal: next taxon is the predicted one', 'B', _R, _ITEM, "\t\treturn {\n\t\t\t'query': item.input,\n\t\t\t'predicted_taxon': item.report_taxon,\n\t\t\t'next_taxon': item.classifier_result.predicted_taxon,\n\t\t\t'closest_genomes': item.closest_genomes,\n\t\t}\n", 'E4'),
+    V('E: json query filled in an if block', 'E', _R, _INPUT, _INPUT2 % ('path', 'format')),
+    V('json query if block swaps path and format', 'B', _R, _INPUT, _INPUT2 % ('format', 'path'), 'E4'),
+    V('json query if block tests the label', 'B', _R, _INPUT, (_INPUT2 % ('path', 'format')).replace("if file is not None:", "if input.label is not None:"), 'E4'),
+    V('E: taxon field list hoisted into a class constant', 'E', _R, _TAXON, _TAXON2 % "'ncbi_id'"),
+    V('hoisted taxon field list names a non-attribute', 'B', _R, _TAXON, _TAXON2 % "'taxid'", 'E4'),
+    V('hoisted taxon field list loses the rank', 'B', _R, _TAXON, (_TAXON2 % "'ncbi_id'").replace(" 'rank',", ""), 'E4'),
+    V('E: genome image in one dict() expression', 'E', _R, _GENOME, _GENOME2 % 'genome_id'),
+    V('genome image reads an id the model does not have', 'B', _R, _GENOME, _GENOME2 % 'id', 'E4'),
+    V('E: params removed with pop', 'E', _R, "\t\tdel data['params']", "\t\tdata.pop('params')"),
+    V('items removed instead of params', 'B', _R, "\t\tdel data['params']", "\t\tdata.pop('items')", 'E4'),
+    # E5 archive
+    V('E: archive key images as dict literals', 'E', _R, "return _todict(gset, ['key', 'version'])", "return {'key': gset.key, 'version': gset.version}"),
+    V('archive literal stores the name under key', 'B', _R, "return _todict(gset, ['key', 'version'])", "return {'key': gset.name, 'version': gset.version}", 'E5'),
+    V('archive literal forgets the version', 'B', _R, "return _todict(gset, ['key', 'version'])", "return {'key': gset.key}", 'E5'),
+    V('E: structure hooks registered from a table', 'E', _R, _HOOKS, _HOOKS2 % "\t\t\t(Taxon, self._structure_taxon),\n"),
+    V('hook table lacks the Taxon row', 'B', _R, _HOOKS, _HOOKS2 % "", 'E5'),
+    V('E: genome set installed by a context manager', 'E', _R, _LOAD, _LOAD2 % ("key=gset_data['key'], version=gset_data['version']", "\t\tself._current_genomeset = gset\n"), also=_CM_IMPORT),
+    V('context manager never installs the genome set', 'B', _R, _LOAD, _LOAD2 % ("key=gset_data['key'], version=gset_data['version']", ""), 'E5', also=_CM_IMPORT),
+    V('context manager form looks the genome set up by key only', 'B', _R, _LOAD, _LOAD2 % ("key=gset_data['key']", "\t\tself._current_genomeset = gset\n"), 'E5', also=_CM_IMPORT),
+    V('E: taxon looked up with filter() expressions', 'E', _R, _TAXQ, "\t\treturn self.session.query(Taxon).filter(Taxon.genome_set_id == gset_id, Taxon.key == key).one()"),
+    V('filter() form not confined to the genome set', 'B', _R, _TAXQ, "\t\treturn self.session.query(Taxon).filter(Taxon.key == key).one()", 'E5'),
+    V('filter() form takes the first match', 'B', _R, _TAXQ, "\t\treturn self.session.query(Taxon).filter(Taxon.genome_set_id == gset_id, Taxon.key == key).first()", 'E5'),
 ]
